@@ -1,6 +1,16 @@
 /-
-C02 — the object model is a coherent tree with a consistent name registry.
-Theorems over `PdModel.Registry`.
+C02 — the object model is a coherent tree with a consistent name registry, in any interleaving
+of duplicate definitions and re-export moves.
+
+Theorems over `PdModel.Registry` (a transcription of `System.addObject`, `System.handleDuplicate`,
+`System._objectsBelow`, `Documentable.reparent`).  The property theorems are at the bottom:
+`inv_step`, `inv_run`, `Inv.invB`, `invB_run` and the spelled-out clauses.
+
+Layers: 0 PyDict as a finite map with unique keys · 1 qualified names (`HasPath`) and the ancestor
+relation (`Below`) without fuel, re-rooting · 2 the registry loops `delAll`/`addAll`, and
+`freeIndex` really is free (pigeonhole + injectivity of the decimal digits) · 3 the registry
+invariant `PInv` and `handleDuplicate` · 4 the tree invariant `CInv`, `addObject` · 5 `reparent`
+· 6 the property theorems.
 -/
 import PdModel.Registry
 
@@ -8,8 +18,12 @@ namespace Registry
 
 theorem inv_init : invB init = true := by decide
 
+/-! ## Layer 0: PyDict as a finite map -/
 section PyDict
 variable {κ ν : Type} [DecidableEq κ]
+
+/-- the keys of a dict are pairwise different -/
+def Uniq (d : List (κ × ν)) : Prop := (d.map Prod.fst).Nodup
 
 /-- reading back what was written -/
 theorem dset_get_same (d : List (κ × ν)) (k : κ) (v : ν) : dget (dset d k v) k = some v := by
@@ -49,6 +63,2007 @@ theorem ddel_none_iff (d : List (κ × ν)) (k : κ) : ddel d k = none ↔ dget 
   induction d with
   | nil => simp [ddel, dget]
   | cons e d ih => obtain ⟨k1, v1⟩ := e; by_cases h1 : k1 = k <;> simp [ddel, dget, h1, ih]
+
+omit [DecidableEq κ] in
+theorem uniq_nil : Uniq ([] : List (κ × ν)) := by simp [Uniq]
+
+omit [DecidableEq κ] in
+theorem uniq_cons {e : κ × ν} {d : List (κ × ν)} :
+    Uniq (e :: d) ↔ (∀ v, (e.1, v) ∉ d) ∧ Uniq d := by
+  simp only [Uniq, List.map_cons, List.nodup_cons, List.mem_map, not_exists, not_and]
+  constructor
+  · rintro ⟨h1, h2⟩
+    exact ⟨fun v hv => h1 (e.1, v) hv rfl, h2⟩
+  · rintro ⟨h1, h2⟩
+    refine ⟨?_, h2⟩
+    rintro ⟨a, b⟩ hab heq
+    simp only at heq
+    subst heq
+    exact h1 b hab
+
+theorem mem_of_dget {d : List (κ × ν)} {k : κ} {v : ν} (h : dget d k = some v) : (k, v) ∈ d := by
+  induction d with
+  | nil => simp [dget] at h
+  | cons e d ih =>
+    obtain ⟨k1, v1⟩ := e
+    by_cases h1 : k1 = k
+    · subst h1; simp [dget] at h; subst h; simp
+    · simp only [dget, h1, if_false] at h
+      exact List.mem_cons_of_mem _ (ih h)
+
+theorem dget_of_mem {d : List (κ × ν)} {k : κ} {v : ν} (hu : Uniq d) (h : (k, v) ∈ d) :
+    dget d k = some v := by
+  induction d with
+  | nil => simp at h
+  | cons e d ih =>
+    obtain ⟨k1, v1⟩ := e
+    rw [uniq_cons] at hu
+    rcases List.mem_cons.1 h with h | h
+    · injection h with h1 h2; subst h1; subst h2; simp [dget]
+    · by_cases h1 : k1 = k
+      · subst h1; exact absurd h (hu.1 v)
+      · simp only [dget, h1, if_false]; exact ih hu.2 h
+
+theorem dget_none_iff {d : List (κ × ν)} {k : κ} : dget d k = none ↔ ∀ v, (k, v) ∉ d := by
+  induction d with
+  | nil => simp [dget]
+  | cons e d ih =>
+    obtain ⟨k1, v1⟩ := e
+    by_cases h1 : k1 = k
+    · subst h1
+      simp only [dget, if_true]
+      exact ⟨fun h => (by cases h), fun h => absurd List.mem_cons_self (h v1)⟩
+    · simp only [dget, h1, if_false, ih, List.mem_cons, Prod.mk.injEq]
+      constructor
+      · intro h v hv
+        rcases hv with ⟨hk, _⟩ | hv
+        · exact h1 hk.symm
+        · exact h v hv
+      · intro h v hv; exact h v (Or.inr hv)
+
+theorem uniq_val {d : List (κ × ν)} {k : κ} {v v' : ν} (hu : Uniq d) (h : (k, v) ∈ d) (h' : (k, v') ∈ d) :
+    v = v' := by
+  have := dget_of_mem hu h
+  rw [dget_of_mem hu h'] at this
+  injection this with this; exact this.symm
+
+theorem mem_dset_iff {d : List (κ × ν)} {k k' : κ} {v v' : ν} (hu : Uniq d) :
+    (k', v') ∈ dset d k v ↔ (k' = k ∧ v' = v) ∨ (k' ≠ k ∧ (k', v') ∈ d) := by
+  induction d with
+  | nil => simp [dset]
+  | cons e d ih =>
+    obtain ⟨k1, v1⟩ := e
+    rw [uniq_cons] at hu
+    by_cases h1 : k1 = k
+    · subst h1
+      simp only [dset, if_true, List.mem_cons, Prod.mk.injEq]
+      constructor
+      · rintro (⟨a, b⟩ | h)
+        · exact Or.inl ⟨a, b⟩
+        · refine Or.inr ⟨?_, Or.inr h⟩
+          intro hk; subst hk; exact hu.1 v' h
+      · rintro (⟨a, b⟩ | ⟨a, ⟨b, _⟩ | c⟩)
+        · exact Or.inl ⟨a, b⟩
+        · exact absurd b a
+        · exact Or.inr c
+    · simp only [dset, h1, if_false, List.mem_cons, Prod.mk.injEq, ih hu.2]
+      constructor
+      · rintro (⟨a, b⟩ | h | h)
+        · subst a; exact Or.inr ⟨fun h => h1 h, Or.inl ⟨rfl, b⟩⟩
+        · exact Or.inl h
+        · exact Or.inr ⟨h.1, Or.inr h.2⟩
+      · rintro (h | ⟨a, ⟨b, c⟩ | c⟩)
+        · exact Or.inr (Or.inl h)
+        · exact Or.inl ⟨b, c⟩
+        · exact Or.inr (Or.inr ⟨a, c⟩)
+
+theorem dset_uniq {d : List (κ × ν)} {k : κ} {v : ν} (hu : Uniq d) : Uniq (dset d k v) := by
+  induction d with
+  | nil => simp [dset, Uniq]
+  | cons e d ih =>
+    obtain ⟨k1, v1⟩ := e
+    have hu' := uniq_cons.1 hu
+    by_cases h1 : k1 = k
+    · subst h1
+      simp only [dset, if_true]
+      exact uniq_cons.2 ⟨hu'.1, hu'.2⟩
+    · simp only [dset, h1, if_false]
+      refine uniq_cons.2 ⟨?_, ih hu'.2⟩
+      intro w hw
+      rcases (mem_dset_iff hu'.2).1 hw with ⟨a, _⟩ | ⟨_, b⟩
+      · exact h1 a
+      · exact hu'.1 w b
+
+theorem dset_of_dget_none {d : List (κ × ν)} {k : κ} {v : ν} (h : dget d k = none) :
+    dset d k v = d ++ [(k, v)] := by
+  induction d with
+  | nil => simp [dset]
+  | cons e d ih =>
+    obtain ⟨k1, v1⟩ := e
+    by_cases h1 : k1 = k
+    · subst h1; simp [dget] at h
+    · simp only [dget, h1, if_false] at h
+      simp [dset, h1, ih h]
+
+theorem ddel_spec {d d' : List (κ × ν)} {k : κ} (hu : Uniq d) (h : ddel d k = some d') :
+    Uniq d' ∧ ∀ k' v', (k', v') ∈ d' ↔ (k' ≠ k ∧ (k', v') ∈ d) := by
+  induction d generalizing d' with
+  | nil => simp [ddel] at h
+  | cons e d ih =>
+    obtain ⟨k1, v1⟩ := e
+    have hu' := uniq_cons.1 hu
+    by_cases h1 : k1 = k
+    · subst h1
+      simp [ddel] at h; subst h
+      refine ⟨hu'.2, fun k' v' => ?_⟩
+      simp only [List.mem_cons, Prod.mk.injEq]
+      constructor
+      · intro hm
+        refine ⟨?_, Or.inr hm⟩
+        intro hk; subst hk; exact hu'.1 v' hm
+      · rintro ⟨a, ⟨b, _⟩ | c⟩
+        · exact absurd b a
+        · exact c
+    · simp only [ddel, h1, if_false, Option.map_eq_some_iff] at h
+      obtain ⟨d2, hd2, rfl⟩ := h
+      obtain ⟨ihu, ihm⟩ := ih hu'.2 hd2
+      refine ⟨uniq_cons.2 ⟨?_, ihu⟩, fun k' v' => ?_⟩
+      · intro w hw; exact hu'.1 w ((ihm _ _).1 hw).2
+      · simp only [List.mem_cons, Prod.mk.injEq, ihm]
+        constructor
+        · rintro (⟨a, b⟩ | ⟨a, b⟩)
+          · subst a; exact ⟨fun h => h1 h, Or.inl ⟨rfl, b⟩⟩
+          · exact ⟨a, Or.inr b⟩
+        · rintro ⟨a, ⟨b, c⟩ | c⟩
+          · exact Or.inl ⟨b, c⟩
+          · exact Or.inr ⟨a, c⟩
+
+theorem ddel_some_of_mem {d : List (κ × ν)} {k : κ} {v : ν} (h : (k, v) ∈ d) : ∃ d', ddel d k = some d' := by
+  induction d with
+  | nil => simp at h
+  | cons e d ih =>
+    obtain ⟨k1, v1⟩ := e
+    by_cases h1 : k1 = k
+    · subst h1; exact ⟨d, by simp [ddel]⟩
+    · rcases List.mem_cons.1 h with h | h
+      · injection h with a _; exact absurd a.symm h1
+      · obtain ⟨d', hd'⟩ := ih h
+        exact ⟨(k1, v1) :: d', by simp [ddel, h1, hd']⟩
+
+/-- in a dict with unique keys, the entries carrying a given key are exactly one -/
+theorem filter_length_one {α β : Type} [DecidableEq β] (f : α → β) :
+    ∀ (d : List α), (d.map f).Nodup → ∀ e ∈ d, (d.filter (fun e' => f e' = f e)).length = 1
+  | [], _, e, he => by simp at he
+  | a :: d, hn, e, he => by
+    rw [List.map_cons, List.nodup_cons] at hn
+    rcases List.mem_cons.1 he with rfl | he'
+    · have : d.filter (fun e' => decide (f e' = f e)) = [] := by
+        rw [List.filter_eq_nil_iff]
+        intro x hx hfx
+        simp only [decide_eq_true_eq] at hfx
+        exact hn.1 (hfx ▸ List.mem_map_of_mem hx)
+      simp [this]
+    · have hne : f a ≠ f e := fun h => hn.1 (h ▸ List.mem_map_of_mem he')
+      simp [hne, filter_length_one f d hn.2 e he']
+
+/-- unique keys and a functional dependency key ← value give unique values -/
+theorem nodup_map_of_dep {α β γ : Type} (f : α → β) (g : α → γ) :
+    ∀ (d : List α), (d.map f).Nodup → (∀ a ∈ d, ∀ b ∈ d, g a = g b → f a = f b) → (d.map g).Nodup
+  | [], _, _ => by simp
+  | a :: d, hn, hd => by
+    rw [List.map_cons, List.nodup_cons] at hn ⊢
+    refine ⟨?_, nodup_map_of_dep f g d hn.2 (fun x hx y hy => hd x (List.mem_cons_of_mem _ hx) y (List.mem_cons_of_mem _ hy))⟩
+    intro hm
+    obtain ⟨b, hb, hgb⟩ := List.mem_map.1 hm
+    have := hd a List.mem_cons_self b (List.mem_cons_of_mem _ hb) hgb.symm
+    exact hn.1 (this ▸ List.mem_map_of_mem hb)
+
+/-- pigeonhole: a duplicate-free list contained in another is not longer -/
+theorem nodup_subset_length {α : Type} [DecidableEq α] :
+    ∀ (l1 l2 : List α), l1.Nodup → (∀ x ∈ l1, x ∈ l2) → l1.length ≤ l2.length
+  | [], _, _, _ => by simp
+  | x :: l1, l2, hn, hs => by
+    rw [List.nodup_cons] at hn
+    have hx : x ∈ l2 := hs x List.mem_cons_self
+    have h1 := nodup_subset_length l1 (l2.erase x) hn.2 (fun y hy => by
+      have hne : y ≠ x := fun h => hn.1 (h ▸ hy)
+      exact (List.mem_erase_of_ne hne).2 (hs y (List.mem_cons_of_mem _ hy)))
+    rw [List.length_erase_of_mem hx] at h1
+    have : 0 < l2.length := List.length_pos_of_mem hx
+    simp only [List.length_cons]; omega
+
 end PyDict
+
+/-! ## Layer 1: qualified names and the ancestor relation, without fuel -/
+
+/-- the part of an object that determines qualified names -/
+def okey (o : Obj) : Name × Option Nat := (o.name, o.parent)
+
+/-- `HasPath objs i p`: following parents from `i` reaches a root and spells `p` -/
+inductive HasPath (objs : List Obj) : Nat → Path → Prop
+  | root {i : Nat} {o : Obj} : objs[i]? = some o → o.parent = none → HasPath objs i [o.name]
+  | child {i : Nat} {o : Obj} {q : Nat} {p : Path} :
+      objs[i]? = some o → o.parent = some q → HasPath objs q p → HasPath objs i (p ++ [o.name])
+
+/-- `Below objs top i`: `top` is `i` or one of its ancestors -/
+inductive Below (objs : List Obj) (top : Nat) : Nat → Prop
+  | refl : Below objs top top
+  | step {i : Nat} {o : Obj} {p : Nat} :
+      objs[i]? = some o → o.parent = some p → Below objs top p → Below objs top i
+
+theorem pathAux_none {objs : List Obj} {f i} (ho : objs[i]? = none) : pathAux objs (f+1) i = none := by
+  simp [pathAux, ho]
+
+theorem pathAux_root {objs : List Obj} {f i o} (ho : objs[i]? = some o) (hp : o.parent = none) :
+    pathAux objs (f+1) i = some [o.name] := by
+  simp [pathAux, ho, hp]
+
+theorem pathAux_child {objs : List Obj} {f i o q} (ho : objs[i]? = some o) (hp : o.parent = some q) :
+    pathAux objs (f+1) i = (pathAux objs f q).map (· ++ [o.name]) := by
+  simp [pathAux, ho, hp]
+
+theorem pathAux_inv {objs : List Obj} {f i p} (h : pathAux objs (f+1) i = some p) :
+    ∃ o, objs[i]? = some o ∧ ((o.parent = none ∧ p = [o.name]) ∨
+      (∃ q p', o.parent = some q ∧ pathAux objs f q = some p' ∧ p = p' ++ [o.name])) := by
+  cases ho : objs[i]? with
+  | none => rw [pathAux_none ho] at h; cases h
+  | some o =>
+    refine ⟨o, rfl, ?_⟩
+    cases hp : o.parent with
+    | none => rw [pathAux_root ho hp] at h; injection h with h; exact Or.inl ⟨rfl, h.symm⟩
+    | some q =>
+      rw [pathAux_child ho hp, Option.map_eq_some_iff] at h
+      obtain ⟨p', hp', rfl⟩ := h
+      exact Or.inr ⟨q, p', rfl, hp', rfl⟩
+
+theorem pathAux_sound {objs : List Obj} : ∀ {f i p}, pathAux objs f i = some p → HasPath objs i p
+  | 0, _, _, h => by simp [pathAux] at h
+  | f+1, i, p, h => by
+    obtain ⟨o, ho, ⟨hp, rfl⟩ | ⟨q, p', hp, hq, rfl⟩⟩ := pathAux_inv h
+    · exact .root ho hp
+    · exact .child ho hp (pathAux_sound hq)
+
+theorem HasPath.ne_nil {objs : List Obj} {i p} (h : HasPath objs i p) : p ≠ [] := by
+  cases h <;> simp
+
+theorem HasPath.length_pos {objs : List Obj} {i p} (h : HasPath objs i p) : 0 < p.length :=
+  List.length_pos_iff.2 h.ne_nil
+
+theorem HasPath.func {objs : List Obj} {i p q} (h : HasPath objs i p) (h' : HasPath objs i q) : p = q := by
+  induction h generalizing q with
+  | root ho hp =>
+    cases h' with
+    | root ho' hp' => rw [ho] at ho'; injection ho' with e; subst e; rfl
+    | child ho' hp' _ => rw [ho] at ho'; injection ho' with e; subst e; rw [hp] at hp'; cases hp'
+  | child ho hp _ ih =>
+    cases h' with
+    | root ho' hp' => rw [ho] at ho'; injection ho' with e; subst e; rw [hp] at hp'; cases hp'
+    | child ho' hp' hq' =>
+      rw [ho] at ho'; injection ho' with e; subst e
+      rw [hp] at hp'; injection hp' with e; subst e
+      rw [ih hq']
+
+theorem HasPath.lt {objs : List Obj} {i p} (h : HasPath objs i p) : i < objs.length := by
+  cases h with
+  | root ho _ => exact (List.getElem?_eq_some_iff.1 ho).1
+  | child ho _ _ => exact (List.getElem?_eq_some_iff.1 ho).1
+
+theorem pathAux_mono {objs : List Obj} : ∀ {f i p}, pathAux objs f i = some p → pathAux objs (f+1) i = some p
+  | 0, _, _, h => by simp [pathAux] at h
+  | f+1, i, p, h => by
+    obtain ⟨o, ho, ⟨hp, rfl⟩ | ⟨q, p', hp, hq, rfl⟩⟩ := pathAux_inv h
+    · exact pathAux_root ho hp
+    · rw [pathAux_child ho hp, pathAux_mono hq]; rfl
+
+theorem pathAux_mono_le {objs : List Obj} {f g i p} (h : pathAux objs f i = some p) (hfg : f ≤ g) :
+    pathAux objs g i = some p := by
+  induction hfg with
+  | refl => exact h
+  | step _ ih => exact pathAux_mono ih
+
+/-- appending an object does not change the names that were defined -/
+theorem pathAux_append {objs : List Obj} (new : Obj) :
+    ∀ {f i p}, pathAux objs f i = some p → pathAux (objs ++ [new]) f i = some p
+  | 0, _, _, h => by simp [pathAux] at h
+  | f+1, i, p, h => by
+    obtain ⟨o, ho, hcase⟩ := pathAux_inv h
+    have ho' : (objs ++ [new])[i]? = some o := by
+      rw [List.getElem?_append_left (List.getElem?_eq_some_iff.1 ho).1]; exact ho
+    rcases hcase with ⟨hp, rfl⟩ | ⟨q, p', hp, hq, rfl⟩
+    · exact pathAux_root ho' hp
+    · rw [pathAux_child ho' hp, pathAux_append new hq]; rfl
+
+/-- `pathAux` only looks at names and parents, and only outside an upward-closed set `P` if it
+starts outside -/
+theorem pathAux_congr_off {objs objs' : List Obj} (P : Nat → Prop)
+    (hagree : ∀ i : Nat, ¬P i → (objs'[i]?).map okey = (objs[i]?).map okey)
+    (hup : ∀ i o p, ¬P i → objs[i]? = some o → o.parent = some p → ¬P p) :
+    ∀ f x, ¬P x → pathAux objs' f x = pathAux objs f x
+  | 0, _, _ => by simp [pathAux]
+  | f+1, x, hx => by
+    have ha := hagree x hx
+    cases ho : objs[x]? with
+    | none =>
+      rw [ho] at ha; simp at ha
+      rw [pathAux_none ho, pathAux_none (List.getElem?_eq_none_iff.2 ha)]
+    | some o =>
+      rw [ho] at ha
+      cases ho' : objs'[x]? with
+      | none => rw [ho'] at ha; simp at ha
+      | some o' =>
+        rw [ho'] at ha
+        simp only [Option.map_some, Option.some.injEq, okey, Prod.mk.injEq] at ha
+        obtain ⟨hn, hp⟩ := ha
+        cases hpar : o.parent with
+        | none => rw [pathAux_root ho hpar, pathAux_root ho' (hp.trans hpar), hn]
+        | some p =>
+          rw [pathAux_child ho hpar, pathAux_child ho' (hp.trans hpar), hn,
+            pathAux_congr_off P hagree hup f p (hup x o p hx ho hpar)]
+
+theorem pathAux_congr {objs objs' : List Obj}
+    (hagree : ∀ i : Nat, (objs'[i]?).map okey = (objs[i]?).map okey) (f x : Nat) :
+    pathAux objs' f x = pathAux objs f x :=
+  pathAux_congr_off (fun _ => False) (fun i _ => hagree i) (fun _ _ _ _ _ _ h => h) f x (fun h => h)
+
+theorem HasPath.congr_off {objs objs' : List Obj} (P : Nat → Prop)
+    (hagree : ∀ i : Nat, ¬P i → (objs'[i]?).map okey = (objs[i]?).map okey)
+    (hup : ∀ i o p, ¬P i → objs[i]? = some o → o.parent = some p → ¬P p)
+    {x q} (h : HasPath objs x q) (hx : ¬P x) : HasPath objs' x q := by
+  induction h with
+  | @root i o ho hp =>
+    have ha := hagree i hx
+    rw [ho] at ha
+    cases ho' : objs'[i]? with
+    | none => rw [ho'] at ha; simp at ha
+    | some o' =>
+      rw [ho'] at ha
+      simp only [Option.map_some, Option.some.injEq, okey, Prod.mk.injEq] at ha
+      rw [← ha.1]; exact .root ho' (ha.2.trans hp)
+  | @child i o q p ho hp _ ih =>
+    have ha := hagree i hx
+    rw [ho] at ha
+    cases ho' : objs'[i]? with
+    | none => rw [ho'] at ha; simp at ha
+    | some o' =>
+      rw [ho'] at ha
+      simp only [Option.map_some, Option.some.injEq, okey, Prod.mk.injEq] at ha
+      rw [← ha.1]; exact .child ho' (ha.2.trans hp) (ih (hup i o q hx ho hp))
+
+theorem HasPath.congr {objs objs' : List Obj}
+    (hagree : ∀ i : Nat, (objs'[i]?).map okey = (objs[i]?).map okey) {x q} (h : HasPath objs x q) :
+    HasPath objs' x q :=
+  h.congr_off (fun _ => False) (fun i _ => hagree i) (fun _ _ _ _ _ _ h => h) (fun h => h)
+
+theorem Below.up_closed (objs : List Obj) (top : Nat) :
+    ∀ i o p, ¬Below objs top i → objs[i]? = some o → o.parent = some p → ¬Below objs top p :=
+  fun _ _ _ hn ho hp hb => hn (.step ho hp hb)
+
+theorem Below.trans {objs : List Obj} {a b c} (h1 : Below objs a b) (h2 : Below objs b c) : Below objs a c := by
+  induction h2 with
+  | refl => exact h1
+  | step ho hp _ ih => exact .step ho hp ih
+
+/-- the name of anything below `top` extends the name of `top` -/
+theorem Below.path_prefix {objs : List Obj} {top x A q} (hb : Below objs top x) (hA : HasPath objs top A)
+    (hq : HasPath objs x q) : ∃ rest, q = A ++ rest := by
+  induction hb generalizing q with
+  | refl => exact ⟨[], by simp [hA.func hq]⟩
+  | @step i o p ho hp _ ih =>
+    cases hq with
+    | root ho' hp' => rw [ho] at ho'; injection ho' with e; subst e; rw [hp] at hp'; cases hp'
+    | child ho' hp' hq' =>
+      rw [ho] at ho'; injection ho' with e; subst e
+      rw [hp] at hp'; injection hp' with e; subst e
+      obtain ⟨r, rfl⟩ := ih hq'
+      exact ⟨r ++ [o.name], by simp⟩
+
+/-- no object is below its own child: the parent chain of a named object has no cycle -/
+theorem not_below_parent {objs : List Obj} {x o p A} (hA : HasPath objs x A) (ho : objs[x]? = some o)
+    (hp : o.parent = some p) : ¬Below objs x p := by
+  intro hb
+  cases hA with
+  | root ho' hp' => rw [ho] at ho'; injection ho' with e; subst e; rw [hp] at hp'; cases hp'
+  | @child _ _ _ q ho' hp' hq' =>
+    rw [ho] at ho'; injection ho' with e; subst e
+    rw [hp] at hp'; injection hp' with e; subst e
+    obtain ⟨r, hr⟩ := hb.path_prefix (.child ho hp hq') hq'
+    have := congrArg List.length hr
+    simp at this <;> omega
+
+/-- two objects, one below the other, with the same name are the same -/
+theorem Below.eq_of_same_path {objs : List Obj} {top x A} (hb : Below objs top x) (hA : HasPath objs top A)
+    (hx : HasPath objs x A) : x = top := by
+  cases hb with
+  | refl => rfl
+  | step ho hp hb' =>
+    cases hx with
+    | root ho' hp' => rw [ho] at ho'; injection ho' with e; subst e; rw [hp] at hp'; cases hp'
+    | @child _ _ _ q ho' hp' hq' =>
+      rw [ho] at ho'; injection ho' with e; subst e
+      rw [hp] at hp'; injection hp' with e; subst e
+      obtain ⟨r, hr⟩ := hb'.path_prefix hA hq'
+      have := congrArg List.length hr
+      simp at this <;> omega
+
+/-- chains are linear -/
+theorem Below.linear {objs : List Obj} {a b x} (ha : Below objs a x) (hb : Below objs b x) :
+    Below objs a b ∨ Below objs b a := by
+  induction ha generalizing b with
+  | refl => exact Or.inr hb
+  | step ho hp ha' ih =>
+    cases hb with
+    | refl => exact Or.inl (.step ho hp ha')
+    | step ho' hp' hb' =>
+      rw [ho] at ho'; injection ho' with e; subst e
+      rw [hp] at hp'; injection hp' with e; subst e
+      exact ih hb'
+
+/-- `Below top ·` does not depend on names, nor on the parent of `top` itself -/
+theorem Below.transfer {objs objs' : List Obj} {top x}
+    (hagree : ∀ i : Nat, i ≠ top → (objs'[i]?).map (·.parent) = (objs[i]?).map (·.parent))
+    (hb : Below objs top x) : Below objs' top x := by
+  induction hb with
+  | refl => exact .refl
+  | @step i o p ho hp _ ih =>
+    by_cases hi : i = top
+    · subst hi; exact .refl
+    · have ha := hagree i hi
+      rw [ho] at ha
+      cases ho' : objs'[i]? with
+      | none => rw [ho'] at ha; simp at ha
+      | some o' =>
+        rw [ho'] at ha
+        simp only [Option.map_some, Option.some.injEq] at ha
+        exact .step ho' (ha.trans hp) ih
+
+/-- re-rooting: if the objects strictly below `top` keep name and parent, their names change by
+replacing the name of `top` -/
+theorem reroot {objs objs' : List Obj} {top A B}
+    (hagree : ∀ i : Nat, Below objs top i → i ≠ top → (objs'[i]?).map okey = (objs[i]?).map okey)
+    (hA : HasPath objs top A) (hB : HasPath objs' top B) {x q} (hb : Below objs top x) (hq : HasPath objs x q) :
+    ∃ rest, q = A ++ rest ∧ HasPath objs' x (B ++ rest) := by
+  induction hb generalizing q with
+  | refl => exact ⟨[], by simp [hA.func hq], by simpa using hB⟩
+  | @step i o p ho hp hb' ih =>
+    by_cases hi : i = top
+    · subst hi; exact ⟨[], by simp [hA.func hq], by simpa using hB⟩
+    · cases hq with
+      | root ho' hp' => rw [ho] at ho'; injection ho' with e; subst e; rw [hp] at hp'; cases hp'
+      | child ho' hp' hq' =>
+        rw [ho] at ho'; injection ho' with e; subst e
+        rw [hp] at hp'; injection hp' with e; subst e
+        obtain ⟨r, rfl, hr⟩ := ih hq'
+        have ha := hagree i (.step ho hp hb') hi
+        rw [ho] at ha
+        cases ho'' : objs'[i]? with
+        | none => rw [ho''] at ha; simp at ha
+        | some o' =>
+          rw [ho''] at ha
+          simp only [Option.map_some, Option.some.injEq, okey, Prod.mk.injEq] at ha
+          refine ⟨r ++ [o.name], by simp, ?_⟩
+          rw [← List.append_assoc, ← ha.1]
+          exact .child ho'' (ha.2.trans hp) hr
+
+/-- every non-empty prefix of a name is the name of an ancestor -/
+theorem HasPath.walk {objs : List Obj} {x q} (h : HasPath objs x q) :
+    ∀ A rest, q = A ++ rest → A ≠ [] → ∃ z, HasPath objs z A ∧ Below objs z x := by
+  induction h with
+  | @root i o ho hp =>
+    intro A rest hq hA
+    cases A with
+    | nil => exact absurd rfl hA
+    | cons a A =>
+      simp at hq
+      obtain ⟨rfl, hA', _⟩ := hq
+      subst hA'
+      exact ⟨i, .root ho hp, .refl⟩
+  | @child i o q p ho hp hq' ih =>
+    intro A rest hq hA
+    rcases List.eq_nil_or_concat rest with rfl | ⟨r, b, rfl⟩
+    · simp at hq; subst hq
+      exact ⟨i, .child ho hp hq', .refl⟩
+    · rw [List.concat_eq_append, ← List.append_assoc] at hq
+      obtain ⟨h1, h2⟩ := List.append_inj' hq rfl
+      obtain ⟨z, hz, hbz⟩ := ih A r h1 hA
+      exact ⟨z, hz, .step ho hp hbz⟩
+
+/-! the fuelled `isBelow` of the model against `Below` -/
+
+theorem isBelowAux_sound {objs : List Obj} {top : Nat} :
+    ∀ {f i}, isBelowAux objs top f i = true → Below objs top i
+  | 0, _, h => by simp [isBelowAux] at h
+  | f+1, i, h => by
+    unfold isBelowAux at h
+    rw [Bool.or_eq_true] at h
+    rcases h with h | h
+    · simp at h; subst h; exact .refl
+    · split at h
+      · cases h
+      · rename_i o ho
+        split at h
+        · cases h
+        · rename_i p hp
+          exact .step ho hp (isBelowAux_sound h)
+
+theorem isBelowAux_complete {objs : List Obj} {top : Nat} :
+    ∀ {f i p}, pathAux objs f i = some p → Below objs top i → isBelowAux objs top f i = true
+  | 0, _, _, h, _ => by simp [pathAux] at h
+  | f+1, i, p, h, hb => by
+    unfold isBelowAux
+    rw [Bool.or_eq_true]
+    cases hb with
+    | refl => left; simp
+    | step ho hp hb' =>
+      right
+      unfold pathAux at h
+      simp only [ho, hp] at h ⊢
+      rw [Option.map_eq_some_iff] at h
+      obtain ⟨p', hp', _⟩ := h
+      exact isBelowAux_complete hp' hb'
+
+/-! ## Layer 2: the registry loops -/
+
+@[simp] theorem path_with_all (s : State) (a : List (Path × Nat)) (i : Nat) :
+    path { s with all := a } i = path s i := rfl
+
+theorem path_sound {s : State} {i p} (h : path s i = some p) : HasPath s.objs i p := pathAux_sound h
+
+/-- `delAll` removes exactly the entries keyed by the current names of the listed objects -/
+theorem delAll_spec : ∀ (l : List Nat) (s s1 : State), Uniq s.all → delAll s l = .ok s1 →
+    s1.objs = s.objs ∧ s1.roots = s.roots ∧ Uniq s1.all ∧
+    ∀ k v, (k, v) ∈ s1.all ↔ ((k, v) ∈ s.all ∧ ∀ o ∈ l, path s o ≠ some k)
+  | [], s, s1, hu, h => by
+    simp only [delAll, Except.ok.injEq] at h
+    subst h
+    exact ⟨rfl, rfl, hu, by simp⟩
+  | o :: os, s, s1, hu, h => by
+    unfold delAll at h
+    cases hp : path s o with
+    | none => simp only [hp] at h; cases h
+    | some p =>
+      simp only [hp] at h
+      cases hd : ddel s.all p with
+      | none => simp only [hd] at h; cases h
+      | some a =>
+        simp only [hd] at h
+        obtain ⟨hu', hm'⟩ := ddel_spec hu hd
+        obtain ⟨h1, h2, h3, h4⟩ := delAll_spec os { s with all := a } s1 hu' h
+        refine ⟨h1, h2, h3, fun k v => ?_⟩
+        rw [h4]
+        simp only [path_with_all, hm', List.mem_cons, forall_eq_or_imp, hp, ne_eq, Option.some.injEq]
+        constructor
+        · rintro ⟨⟨a1, a2⟩, a3⟩; exact ⟨a2, fun h => a1 h.symm, a3⟩
+        · rintro ⟨a1, a2, a3⟩; exact ⟨⟨fun h => a2 h.symm, a1⟩, a3⟩
+
+/-- `addAll` (re-)registers the listed objects under their current names -/
+theorem addAll_spec : ∀ (l : List Nat) (s s' : State), Uniq s.all →
+    (∀ x ∈ l, ∀ y ∈ l, ∀ k, path s x = some k → path s y = some k → x = y) → addAll s l = .ok s' →
+    s'.objs = s.objs ∧ s'.roots = s.roots ∧ Uniq s'.all ∧ (∀ o ∈ l, ∃ k, path s o = some k) ∧
+    ∀ k v, (k, v) ∈ s'.all ↔ (((k, v) ∈ s.all ∧ ∀ o ∈ l, path s o ≠ some k) ∨ (v ∈ l ∧ path s v = some k))
+  | [], s, s', hu, _, h => by
+    simp only [addAll, Except.ok.injEq] at h
+    subst h
+    exact ⟨rfl, rfl, hu, by simp, by simp⟩
+  | o :: os, s, s', hu, hinj, h => by
+    unfold addAll at h
+    cases hp : path s o with
+    | none => simp only [hp] at h; cases h
+    | some p =>
+      simp only [hp] at h
+      have hinj' : ∀ x ∈ os, ∀ y ∈ os, ∀ k, path s x = some k → path s y = some k → x = y :=
+        fun x hx y hy => hinj x (List.mem_cons_of_mem _ hx) y (List.mem_cons_of_mem _ hy)
+      obtain ⟨h1, h2, h3, h4, h5⟩ := addAll_spec os { s with all := dset s.all p o } s' (dset_uniq hu) hinj' h
+      refine ⟨h1, h2, h3, ?_, fun k v => ?_⟩
+      · intro x hx
+        rcases List.mem_cons.1 hx with rfl | hx
+        · exact ⟨p, hp⟩
+        · exact h4 x hx
+      · rw [h5]
+        simp only [path_with_all, mem_dset_iff hu, List.mem_cons, forall_eq_or_imp, hp, ne_eq, Option.some.injEq]
+        constructor
+        · rintro (⟨⟨a1, a2⟩ | ⟨a1, a2⟩, a3⟩ | ⟨a1, a2⟩)
+          · subst a1; subst a2; exact Or.inr ⟨Or.inl rfl, hp⟩
+          · exact Or.inl ⟨a2, fun h => a1 h.symm, a3⟩
+          · exact Or.inr ⟨Or.inr a1, a2⟩
+        · rintro (⟨a1, a2, a3⟩ | ⟨rfl | a1, a2⟩)
+          · exact Or.inl ⟨Or.inr ⟨fun h => a2 h.symm, a1⟩, a3⟩
+          · rw [hp] at a2; injection a2 with a2; subst a2
+            by_cases hmem : v ∈ os
+            · exact Or.inr ⟨hmem, hp⟩
+            · refine Or.inl ⟨Or.inl ⟨rfl, rfl⟩, fun o' ho' hpo' => hmem ?_⟩
+              have := hinj o' (List.mem_cons_of_mem _ ho') v List.mem_cons_self _ hpo' hp
+              exact this ▸ ho'
+          · exact Or.inr ⟨a1, a2⟩
+
+/-! ### `freeIndex` really returns a free index -/
+
+theorem natDigits_inj {a b : Nat} (h : natDigits a = natDigits b) : a = b := by
+  simp only [natDigits, Nat.toString_eq_repr, Nat.toList_repr] at h
+  have := congrArg (fun l => Nat.ofDigitChars 10 l 0) h
+  simpa [Nat.ofDigitChars_ten_toDigits] using this
+
+/-- the candidate key number `i` of `handleDuplicate` -/
+def fkey (pre : Path) (name : Name) (i : Nat) : Path := pre ++ [name ++ ' ' :: natDigits i]
+
+theorem fkey_inj {pre name a b} (h : fkey pre name a = fkey pre name b) : a = b := by
+  simp only [fkey] at h
+  have h1 := List.append_cancel_left h
+  simp only [List.cons.injEq, and_true] at h1
+  have h2 := List.append_cancel_left h1
+  simp only [List.cons.injEq, true_and] at h2
+  exact natDigits_inj h2
+
+theorem freeIndexAux_spec (all : List (Path × Nat)) (pre : Path) (name : Name) :
+    ∀ f i, dhas all (fkey pre name (freeIndexAux all pre name f i)) = false ∨
+      (∀ m, i ≤ m → m < i + f → dhas all (fkey pre name m) = true)
+  | 0, i => by right; intro m h1 h2; omega
+  | f+1, i => by
+    unfold freeIndexAux
+    by_cases h : dhas all (pre ++ [name ++ ' ' :: natDigits i]) = true
+    · simp only [h, if_true]
+      rcases freeIndexAux_spec all pre name f (i+1) with h' | h'
+      · exact Or.inl h'
+      · right
+        intro m h1 h2
+        by_cases hm : m = i
+        · subst hm; exact h
+        · exact h' m (by omega) (by omega)
+    · simp only [h]
+      left
+      simpa [fkey] using h
+
+theorem freeIndex_free (s : State) (pre : Path) (name : Name) :
+    dhas s.all (fkey pre name (freeIndex s pre name)) = false := by
+  rcases freeIndexAux_spec s.all pre name (s.all.length + 1) 0 with h | h
+  · exact h
+  · exfalso
+    have hnd : ((List.range (s.all.length + 1)).map (fkey pre name)).Nodup :=
+      nodup_map_of_dep id (fkey pre name) _ (by simpa using List.nodup_range)
+        (fun a _ b _ hab => fkey_inj hab)
+    have hsub : ∀ x ∈ (List.range (s.all.length + 1)).map (fkey pre name), x ∈ s.all.map Prod.fst := by
+      intro x hx
+      obtain ⟨m, hm, rfl⟩ := List.mem_map.1 hx
+      have := h m (Nat.zero_le _) (by simpa using hm)
+      simp only [dhas, Option.isSome_iff_exists] at this
+      obtain ⟨v, hv⟩ := this
+      exact List.mem_map.2 ⟨(_, v), mem_of_dget hv, rfl⟩
+    have := nodup_subset_length _ _ hnd hsub
+    simp only [List.length_map, List.length_range] at this
+    omega
+
+theorem superseded_fresh (name : Name) (i : Nat) : isSupersededName (name ++ ' ' :: natDigits i) = true := by
+  simp [isSupersededName]
+
+/-! ## Layer 3: the registry invariant proper, and `handleDuplicate` -/
+
+theorem getElem?_modify_ne {l : List Obj} {j i : Nat} (g : Obj → Obj) (h : i ≠ j) :
+    (l.modify j g)[i]? = l[i]? := by
+  rw [List.getElem?_modify]
+  simp [Ne.symm h]
+
+theorem getElem?_modify_eq (l : List Obj) (j : Nat) (g : Obj → Obj) :
+    (l.modify j g)[j]? = (l[j]?).map g := by
+  rw [List.getElem?_modify]
+  cases l[j]? <;> simp
+
+theorem modify_agree_okey (l : List Obj) (j : Nat) (g : Obj → Obj) (hg : ∀ o, okey (g o) = okey o) (i : Nat) :
+    ((l.modify j g)[i]?).map okey = (l[i]?).map okey := by
+  by_cases h : i = j
+  · subst h; rw [getElem?_modify_eq]; cases l[i]? <;> simp [hg]
+  · rw [getElem?_modify_ne g h]
+
+theorem modify_agree_parent (l : List Obj) (j : Nat) (g : Obj → Obj) (hg : ∀ o, (g o).parent = o.parent) (i : Nat) :
+    ((l.modify j g)[i]?).map (·.parent) = (l[i]?).map (·.parent) := by
+  by_cases h : i = j
+  · subst h; rw [getElem?_modify_eq]; cases l[i]? <;> simp [hg]
+  · rw [getElem?_modify_ne g h]
+
+theorem path_congr_objs {s t : State} (h : s.objs = t.objs) (i : Nat) : path s i = path t i := by
+  simp only [path, h]
+
+/-- `i` is registered -/
+def Reg (s : State) (i : Nat) : Prop := ∃ k, (k, i) ∈ s.all
+
+/-- The registry part of the invariant, for a registry that may be missing a subtree:
+keys are unique, every entry sits under the current qualified name of its object, and the
+registered objects are closed under taking parents. -/
+structure PInv (s : State) : Prop where
+  uniq : Uniq s.all
+  keys : ∀ k i, (k, i) ∈ s.all → path s i = some k
+  up : ∀ i o q, Reg s i → s.objs[i]? = some o → o.parent = some q → Reg s q
+
+theorem PInv.hasPath {s : State} (hI : PInv s) {k i} (h : (k, i) ∈ s.all) : HasPath s.objs i k :=
+  path_sound (hI.keys k i h)
+
+/-- a registered object is the only registered object with its name -/
+theorem PInv.inj {s : State} (hI : PInv s) {k i j} (hi : (k, i) ∈ s.all) (hj : Reg s j)
+    (hjk : HasPath s.objs j k) : j = i := by
+  obtain ⟨k', hk'⟩ := hj
+  have := (hI.hasPath hk').func hjk
+  subst this
+  exact uniq_val hI.uniq hk' hi
+
+theorem PInv.reg_up {s : State} (hI : PInv s) {z y} (hb : Below s.objs z y) (hy : Reg s y) : Reg s z := by
+  induction hb with
+  | refl => exact hy
+  | step ho hp _ ih => exact ih (hI.up _ _ _ hy ho hp)
+
+theorem isBelow_iff {s : State} {top i p} (h : path s i = some p) :
+    isBelow s top i = true ↔ Below s.objs top i :=
+  ⟨isBelowAux_sound, isBelowAux_complete h⟩
+
+theorem mem_objectsBelow {s : State} (hI : PInv s) {top x} :
+    x ∈ objectsBelow s top ↔ (Reg s x ∧ Below s.objs top x) := by
+  simp only [objectsBelow, List.mem_filter, List.mem_map]
+  constructor
+  · rintro ⟨⟨⟨k, v⟩, hkv, rfl⟩, hb⟩
+    exact ⟨⟨k, hkv⟩, (isBelow_iff (hI.keys k v hkv)).1 hb⟩
+  · rintro ⟨⟨k, hk⟩, hb⟩
+    exact ⟨⟨(k, x), hk, rfl⟩, (isBelow_iff (hI.keys k x hk)).2 hb⟩
+
+theorem HasPath.eq_dropLast {objs : List Obj} {i p o} (h : HasPath objs i p) (ho : objs[i]? = some o) :
+    p = p.dropLast ++ [o.name] := by
+  cases h with
+  | root ho' _ => rw [ho] at ho'; injection ho' with e; subst e; rfl
+  | child ho' _ _ => rw [ho] at ho'; injection ho' with e; subst e; rw [List.dropLast_concat]
+
+theorem fkey_ne_nil (pre : Path) (name : Name) (i : Nat) : fkey pre name i ≠ [] := by
+  simp [fkey]
+
+/-- What `handleDuplicate` does to a registry that satisfies `PInv`, when the new object `obj`
+is not registered yet and its parent is. -/
+theorem handleDuplicate_spec {s s' : State} {obj : Nat} {fn : Path} (hI : PInv s) (hnr : ¬Reg s obj)
+    (hfn : path s obj = some fn)
+    (hpar : ∀ o q, s.objs[obj]? = some o → o.parent = some q → Reg s q)
+    (h : handleDuplicate s obj fn = .ok s') :
+    ∃ prev nm', (fn, prev) ∈ s.all ∧ isSupersededName nm' = true ∧
+      s'.objs = s.objs.modify prev (fun p => { p with name := nm' }) ∧ s'.roots = s.roots ∧
+      PInv s' ∧ (∀ i, Reg s' i ↔ (Reg s i ∨ i = obj)) ∧ (fn, obj) ∈ s'.all := by
+  unfold handleDuplicate at h
+  cases hgo : getObj s obj with
+  | none => simp only [hgo] at h; cases h
+  | some o =>
+  cases hdg : dget s.all fn with
+  | none => simp only [hgo, hdg] at h; cases h
+  | some prev =>
+  simp only [hgo, hdg] at h
+  have ho : s.objs[obj]? = some o := hgo
+  have hprev : (fn, prev) ∈ s.all := mem_of_dget hdg
+  have hprevP : HasPath s.objs prev fn := hI.hasPath hprev
+  have hobjP : HasPath s.objs obj fn := path_sound hfn
+  -- names
+  generalize hi0 : freeIndex s fn.dropLast o.name = i0 at h
+  have hfree : ∀ v, (fkey fn.dropLast o.name i0, v) ∉ s.all := by
+    have := freeIndex_free s fn.dropLast o.name
+    rw [hi0] at this
+    simp only [dhas, Option.isSome_eq_false_iff, Option.isNone_iff_eq_none] at this
+    exact dget_none_iff.1 this
+  generalize hnm : o.name ++ ' ' :: natDigits i0 = nm' at h
+  have hK : fkey fn.dropLast o.name i0 = fn.dropLast ++ [nm'] := by simp [fkey, hnm]
+  have hsup : isSupersededName nm' = true := by rw [← hnm]; exact superseded_fresh _ _
+  have hnmne : nm' ≠ o.name := by
+    intro he
+    have := congrArg List.length he
+    rw [← hnm] at this
+    simp at this
+  -- delAll
+  cases hdel : delAll s (objectsBelow s prev) with
+  | error e => simp only [hdel] at h; cases h
+  | ok s1 =>
+  simp only [hdel] at h
+  obtain ⟨h1o, h1r, h1u, h1m⟩ := delAll_spec _ _ _ hI.uniq hdel
+  -- the rename
+  generalize hs2 : modifyObj s1 prev (fun p => { p with name := nm' }) = s2 at h
+  have h2o : s2.objs = s.objs.modify prev (fun p => { p with name := nm' }) := by
+    rw [← hs2, modifyObj, h1o]
+  have h2a : s2.all = s1.all := by rw [← hs2]; rfl
+  have h2r : s2.roots = s.roots := by rw [← hs2]; exact h1r
+  have h2len : s2.objs.length = s.objs.length := by rw [h2o, List.length_modify]
+  have hagree : ∀ i : Nat, i ≠ prev → (s2.objs[i]?).map okey = (s.objs[i]?).map okey := by
+    intro i hi; rw [h2o, getElem?_modify_ne _ hi]
+  have hagreeP : ∀ i : Nat, (s2.objs[i]?).map (·.parent) = (s.objs[i]?).map (·.parent) := by
+    intro i; rw [h2o]; exact modify_agree_parent s.objs prev (fun p => { p with name := nm' }) (fun _ => rfl) i
+  have hoff : ∀ i : Nat, ¬Below s.objs prev i → (s2.objs[i]?).map okey = (s.objs[i]?).map okey :=
+    fun i hi => hagree i (fun e => hi (e ▸ .refl))
+  have hpath2 : ∀ x, ¬Below s.objs prev x → path s2 x = path s x := by
+    intro x hx
+    simp only [path, h2len]
+    exact pathAux_congr_off _ hoff (Below.up_closed _ _) _ x hx
+  -- the new name of `prev`
+  obtain ⟨po, hpo⟩ : ∃ po, s.objs[prev]? = some po := by
+    have := hprevP.lt
+    exact ⟨s.objs[prev], by simp [this]⟩
+  have hpo2 : s2.objs[prev]? = some { po with name := nm' } := by
+    rw [h2o, getElem?_modify_eq, hpo]; rfl
+  have hprevP2 : HasPath s2.objs prev (fn.dropLast ++ [nm']) := by
+    cases hprevP with
+    | root ho' hp' =>
+      rw [hpo] at ho'; injection ho' with e; subst e
+      exact HasPath.root (o := { po with name := nm' }) hpo2 hp'
+    | @child _ _ q pq ho' hp' hq' =>
+      rw [hpo] at ho'; injection ho' with e; subst e
+      rw [List.dropLast_concat]
+      have hnb : ¬Below s.objs prev q := not_below_parent (.child hpo hp' hq') hpo hp'
+      exact HasPath.child (o := { po with name := nm' }) hpo2 hp'
+        (hq'.congr_off _ hoff (Below.up_closed _ _) hnb)
+  -- objects below `prev`
+  have hbelow : ∀ x, x ∈ objectsBelow s prev ↔ (Reg s x ∧ Below s.objs prev x) := fun x => mem_objectsBelow hI
+  have hre : ∀ x kx, (kx, x) ∈ s.all → Below s.objs prev x →
+      ∃ rest, kx = fn ++ rest ∧ HasPath s2.objs x (fn.dropLast ++ [nm'] ++ rest) := by
+    intro x kx hx hb
+    exact reroot (fun i _ hi => hagree i hi) hprevP hprevP2 hb (hI.hasPath hx)
+  have hobj_nb : ¬Below s.objs prev obj := by
+    intro hb
+    have := hb.eq_of_same_path hprevP hobjP
+    exact hnr (this ▸ ⟨fn, hprev⟩)
+  have hfn_eq : fn = fn.dropLast ++ [o.name] := hobjP.eq_dropLast ho
+  have hne_fn : ∀ rest, fn.dropLast ++ [nm'] ++ rest ≠ fn := by
+    intro rest he
+    rw [List.append_assoc] at he
+    have he' : fn.dropLast ++ ([nm'] ++ rest) = fn.dropLast ++ [o.name] := he.trans hfn_eq
+    have := List.append_cancel_left he'
+    simp at this
+    exact hnmne this.1
+  -- no collision between the new names and what stays registered
+  have hcoll : ∀ k y x, (k, y) ∈ s.all → x ∈ objectsBelow s prev → path s2 x = some k → False := by
+    intro k y x hy hx hxk
+    obtain ⟨⟨kx, hkx⟩, hxb⟩ := (hbelow x).1 hx
+    obtain ⟨rest, _, hx2⟩ := hre x kx hkx hxb
+    have hk : k = fn.dropLast ++ [nm'] ++ rest := (path_sound hxk).func hx2
+    have hyP := hI.hasPath hy
+    rw [hk, ← hK] at hyP
+    obtain ⟨z, hzK, hzb⟩ := hyP.walk _ rest rfl (fkey_ne_nil _ _ _)
+    obtain ⟨kz, hkz⟩ := hI.reg_up hzb ⟨_, hy⟩
+    have := (hI.hasPath hkz).func hzK
+    subst this
+    exact hfree z hkz
+  have hinj2 : ∀ x ∈ objectsBelow s prev, ∀ y ∈ objectsBelow s prev, ∀ k, path s2 x = some k → path s2 y = some k → x = y := by
+    intro x hx y hy k hxk hyk
+    obtain ⟨⟨kx, hkx⟩, hxb⟩ := (hbelow x).1 hx
+    obtain ⟨⟨ky, hky⟩, hyb⟩ := (hbelow y).1 hy
+    obtain ⟨rx, hrx, hx2⟩ := hre x kx hkx hxb
+    obtain ⟨ry, hry, hy2⟩ := hre y ky hky hyb
+    have e1 := (path_sound hxk).func hx2
+    have e2 := (path_sound hyk).func hy2
+    have : rx = ry := List.append_cancel_left (e1.symm.trans e2)
+    subst this
+    rw [← hry] at hrx
+    subst hrx
+    exact uniq_val hI.uniq hkx hky
+  -- addAll
+  cases hadd : addAll s2 (objectsBelow s prev) with
+  | error e => simp only [hadd] at h; cases h
+  | ok s3 =>
+  simp only [hadd, Except.ok.injEq] at h
+  have h2u : Uniq s2.all := h2a ▸ h1u
+  obtain ⟨h3o, h3r, h3u, h3d, h3m⟩ := addAll_spec _ _ _ h2u hinj2 hadd
+  subst h
+  have hs'o : s3.objs = s2.objs := h3o
+  have hpath' : ∀ a x, path { s3 with all := a } x = path s2 x := fun a x => path_congr_objs (t := s2) h3o x
+  -- membership in the final registry
+  have hmem : ∀ k v, (k, v) ∈ dset s3.all fn obj ↔
+      ((k = fn ∧ v = obj) ∨ (k ≠ fn ∧ (((k, v) ∈ s.all ∧ ¬Below s.objs prev v) ∨
+        (v ∈ objectsBelow s prev ∧ path s2 v = some k)))) := by
+    intro k v
+    rw [mem_dset_iff h3u, h3m, h2a, h1m]
+    constructor
+    · rintro (a | ⟨a, ⟨⟨b1, b2⟩, b3⟩ | b⟩)
+      · exact Or.inl a
+      · refine Or.inr ⟨a, Or.inl ⟨b1, fun hb => ?_⟩⟩
+        exact b2 v ((hbelow v).2 ⟨⟨k, b1⟩, hb⟩) (hI.keys k v b1)
+      · exact Or.inr ⟨a, Or.inr b⟩
+    · rintro (a | ⟨a, ⟨b1, b2⟩ | b⟩)
+      · exact Or.inl a
+      · refine Or.inr ⟨a, Or.inl ⟨⟨b1, ?_⟩, ?_⟩⟩
+        · intro x hx hxk
+          obtain ⟨⟨kx, hkx⟩, hxb⟩ := (hbelow x).1 hx
+          have := hI.keys kx x hkx
+          rw [hxk] at this; injection this with this; subst this
+          exact b2 (uniq_val hI.uniq hkx b1 ▸ hxb)
+        · intro x hx hxk
+          exact hcoll k v x b1 hx hxk
+      · exact Or.inr ⟨a, Or.inr b⟩
+  have hreg : ∀ i, Reg { s3 with all := dset s3.all fn obj } i ↔ (Reg s i ∨ i = obj) := by
+    intro i
+    constructor
+    · rintro ⟨k, hk⟩
+      rcases (hmem k i).1 hk with ⟨_, a⟩ | ⟨_, ⟨a, _⟩ | ⟨a, _⟩⟩
+      · exact Or.inr a
+      · exact Or.inl ⟨k, a⟩
+      · exact Or.inl ((hbelow i).1 a).1
+    · rintro (⟨k, hk⟩ | rfl)
+      · by_cases hb : Below s.objs prev i
+        · have hib := (hbelow i).2 ⟨⟨k, hk⟩, hb⟩
+          obtain ⟨k2, hk2⟩ := h3d i hib
+          obtain ⟨rest, _, hx2⟩ := hre i k hk hb
+          have : k2 = fn.dropLast ++ [nm'] ++ rest := (path_sound hk2).func hx2
+          exact ⟨k2, (hmem k2 i).2 (Or.inr ⟨this ▸ hne_fn rest, Or.inr ⟨hib, hk2⟩⟩)⟩
+        · refine ⟨k, (hmem k i).2 (Or.inr ⟨?_, Or.inl ⟨hk, hb⟩⟩)⟩
+          intro he; subst he
+          exact hb (uniq_val hI.uniq hk hprev ▸ .refl)
+      · exact ⟨fn, (hmem fn i).2 (Or.inl ⟨rfl, rfl⟩)⟩
+  refine ⟨prev, nm', hprev, hsup, hs'o.trans h2o, h3r.trans h2r, ⟨dset_uniq h3u, ?_, ?_⟩, hreg,
+    (hmem fn obj).2 (Or.inl ⟨rfl, rfl⟩)⟩
+  · -- keys
+    intro k v hkv
+    show path { s3 with all := dset s3.all fn obj } v = some k
+    rw [hpath']
+    rcases (hmem k v).1 hkv with ⟨rfl, rfl⟩ | ⟨_, ⟨a, b⟩ | ⟨_, b⟩⟩
+    · rw [hpath2 v hobj_nb]; exact hfn
+    · rw [hpath2 v b]; exact hI.keys k v a
+    · exact b
+  · -- up
+    intro i o' q hi ho' hq'
+    have ho'' : s2.objs[i]? = some o' := by rw [← hs'o]; exact ho'
+    have hpa := hagreeP i
+    rw [ho''] at hpa
+    cases hso : s.objs[i]? with
+    | none => rw [hso] at hpa; simp at hpa
+    | some os =>
+      rw [hso] at hpa
+      simp only [Option.map_some, Option.some.injEq] at hpa
+      refine (hreg q).2 (Or.inl ?_)
+      rcases (hreg i).1 hi with hr | rfl
+      · exact hI.up i os q hr hso (hpa ▸ hq')
+      · exact hpar os q hso (hpa ▸ hq')
+
+/-! ## Layer 4: the tree part of the invariant; `addObject` -/
+
+/-- a child is its parent's entry unless it has been superseded; a parentless object is a root -/
+def Listed (objs : List Obj) (roots : List Nat) (i : Nat) (o : Obj) : Prop :=
+  (o.parent = none → i ∈ roots) ∧
+  (∀ p, o.parent = some p → ∃ po, objs[p]? = some po ∧
+    (dget po.contents o.name = some i ∨ isSupersededName o.name = true))
+
+/-- The tree part of the invariant. -/
+structure CInv (objs : List Obj) (roots : List Nat) : Prop where
+  cuniq : ∀ (p : Nat) (po : Obj), objs[p]? = some po → Uniq po.contents
+  coh : ∀ (p : Nat) (po : Obj) (k : Name) (c : Nat), objs[p]? = some po → (k, c) ∈ po.contents →
+    ∃ co : Obj, objs[c]? = some co ∧ co.parent = some p ∧ co.name = k
+  listed : ∀ (i : Nat) (o : Obj), objs[i]? = some o → Listed objs roots i o
+
+/-- The invariant of C02. -/
+structure Inv (s : State) : Prop where
+  reg : PInv s
+  full : ∀ i, i < s.objs.length → Reg s i
+  tree : CInv s.objs s.roots
+
+theorem modify_name_get {objs : List Obj} {prev : Nat} {nm' : Name} {i : Nat} {o' : Obj}
+    (h : (objs.modify prev (fun p => { p with name := nm' }))[i]? = some o') :
+    ∃ o, objs[i]? = some o ∧ o'.parent = o.parent ∧ o'.contents = o.contents ∧
+      (i ≠ prev → o' = o) ∧ (i = prev → o'.name = nm') := by
+  by_cases hi : i = prev
+  · subst hi
+    rw [getElem?_modify_eq] at h
+    cases ho : objs[i]? with
+    | none => rw [ho] at h; simp at h
+    | some o =>
+      rw [ho] at h; simp only [Option.map_some, Option.some.injEq] at h; subst h
+      exact ⟨o, rfl, rfl, rfl, fun h => absurd rfl h, fun _ => rfl⟩
+  · rw [getElem?_modify_ne _ hi] at h
+    exact ⟨o', h, rfl, rfl, fun _ => rfl, fun h => absurd h hi⟩
+
+theorem modify_name_get' {objs : List Obj} (prev : Nat) (nm' : Name) {i : Nat} {o : Obj}
+    (h : objs[i]? = some o) :
+    ∃ o', (objs.modify prev (fun p => { p with name := nm' }))[i]? = some o' ∧ o'.contents = o.contents := by
+  by_cases hi : i = prev
+  · subst hi
+    exact ⟨{ o with name := nm' }, by rw [getElem?_modify_eq, h]; rfl, rfl⟩
+  · exact ⟨o, by rw [getElem?_modify_ne _ hi]; exact h, rfl⟩
+
+/-- renaming a superseded object that nobody lists keeps the tree coherent -/
+theorem CInv_rename {objs : List Obj} {roots : List Nat} {prev : Nat} {nm' : Name}
+    (hsup : isSupersededName nm' = true)
+    (cuniq : ∀ (p : Nat) (po : Obj), objs[p]? = some po → Uniq po.contents)
+    (coh : ∀ (p : Nat) (po : Obj) (k : Name) (c : Nat), objs[p]? = some po → (k, c) ∈ po.contents →
+      ∃ co : Obj, objs[c]? = some co ∧ co.parent = some p ∧ co.name = k)
+    (hnoentry : ∀ (p : Nat) (po : Obj) (k : Name), objs[p]? = some po → (k, prev) ∉ po.contents)
+    (hlisted : ∀ (i : Nat) (o : Obj), i ≠ prev → objs[i]? = some o → Listed objs roots i o)
+    (hprevpar : ∀ po : Obj, objs[prev]? = some po → (po.parent = none → prev ∈ roots) ∧
+      (∀ p, po.parent = some p → ∃ ppo : Obj, objs[p]? = some ppo)) :
+    CInv (objs.modify prev (fun p => { p with name := nm' })) roots := by
+  refine ⟨?_, ?_, ?_⟩
+  · intro p po' hpo'
+    obtain ⟨po, hpo, _, hc, _, _⟩ := modify_name_get hpo'
+    rw [hc]; exact cuniq p po hpo
+  · intro p po' k c hpo' hkc
+    obtain ⟨po, hpo, _, hc, _, _⟩ := modify_name_get hpo'
+    rw [hc] at hkc
+    obtain ⟨co, hco, h1, h2⟩ := coh p po k c hpo hkc
+    have hcp : c ≠ prev := fun e => hnoentry p po k hpo (e ▸ hkc)
+    exact ⟨co, by rw [getElem?_modify_ne _ hcp]; exact hco, h1, h2⟩
+  · intro i o' ho'
+    obtain ⟨o, ho, hpar, _, hne, heq⟩ := modify_name_get ho'
+    by_cases hi : i = prev
+    · subst hi
+      obtain ⟨h1, h2⟩ := hprevpar o ho
+      refine ⟨fun hn => h1 (hpar ▸ hn), fun p hp => ?_⟩
+      obtain ⟨ppo, hppo⟩ := h2 p (hpar ▸ hp)
+      obtain ⟨ppo', hppo', _⟩ := modify_name_get' i nm' hppo
+      exact ⟨ppo', hppo', Or.inr (by rw [heq rfl]; exact hsup)⟩
+    · have := hne hi; subst this
+      obtain ⟨h1, h2⟩ := hlisted i o' hi ho
+      refine ⟨h1, fun p hp => ?_⟩
+      obtain ⟨po, hpo, hd⟩ := h2 p hp
+      obtain ⟨po', hpo', hc⟩ := modify_name_get' prev nm' hpo
+      exact ⟨po', hpo', by rw [hc]; exact hd⟩
+
+/-! ### registration -/
+
+/-- What `register` does to a registry satisfying `PInv` when `id` is not registered yet. -/
+theorem register_spec {s1 s' : State} {id : Nat} (hP : PInv s1) (hnr : ¬Reg s1 id)
+    (hpar : ∀ o q, s1.objs[id]? = some o → o.parent = some q → Reg s1 q)
+    (h : register s1 id = .ok s') :
+    PInv s' ∧ (∀ i, Reg s' i ↔ (Reg s1 i ∨ i = id)) ∧ s'.roots = s1.roots ∧
+    ∃ fn, path s1 id = some fn ∧
+      ((dget s1.all fn = none ∧ s'.objs = s1.objs) ∨
+       (∃ prev nm', (fn, prev) ∈ s1.all ∧ isSupersededName nm' = true ∧
+          s'.objs = s1.objs.modify prev (fun p => { p with name := nm' }))) := by
+  unfold register at h
+  cases hfn : path s1 id with
+  | none => simp only [hfn] at h; cases h
+  | some fn =>
+    simp only [hfn] at h
+    cases hdg : dget s1.all fn with
+    | some prev0 =>
+      simp only [hdg] at h
+      obtain ⟨prev, nm', a1, a2, a3, a4, a5, a6, _⟩ := handleDuplicate_spec hP hnr hfn hpar h
+      exact ⟨a5, a6, a4, fn, rfl, Or.inr ⟨prev, nm', a1, a2, a3⟩⟩
+    | none =>
+      simp only [hdg, Except.ok.injEq] at h
+      subst h
+      have hmem : ∀ k v, (k, v) ∈ s1.all ++ [(fn, id)] ↔ ((k, v) ∈ s1.all ∨ (k = fn ∧ v = id)) := by
+        intro k v; simp
+      have hreg : ∀ i, Reg { s1 with all := s1.all ++ [(fn, id)] } i ↔ (Reg s1 i ∨ i = id) := by
+        intro i
+        constructor
+        · rintro ⟨k, hk⟩
+          rcases (hmem k i).1 hk with a | ⟨_, a⟩
+          · exact Or.inl ⟨k, a⟩
+          · exact Or.inr a
+        · rintro (⟨k, hk⟩ | rfl)
+          · exact ⟨k, (hmem k i).2 (Or.inl hk)⟩
+          · exact ⟨fn, (hmem fn i).2 (Or.inr ⟨rfl, rfl⟩)⟩
+      refine ⟨⟨?_, ?_, ?_⟩, hreg, rfl, fn, rfl, Or.inl ⟨hdg, rfl⟩⟩
+      · show Uniq (s1.all ++ [(fn, id)])
+        rw [← dset_of_dget_none hdg]; exact dset_uniq hP.uniq
+      · intro k v hkv
+        show path s1 v = some k
+        rcases (hmem k v).1 hkv with a | ⟨rfl, rfl⟩
+        · exact hP.keys k v a
+        · exact hfn
+      · intro i o q hi ho hq
+        refine (hreg q).2 (Or.inl ?_)
+        rcases (hreg i).1 hi with a | rfl
+        · exact hP.up i o q a ho hq
+        · exact hpar o q ho hq
+
+/-- the registry invariant survives appending a new (unregistered) object and editing
+`contents`/`aliases` -/
+theorem PInv_extend {s s1 : State} {new : Obj} (hI : PInv s) (hall : s1.all = s.all)
+    (hlen : s1.objs.length = s.objs.length + 1)
+    (hagree : ∀ i : Nat, (s1.objs[i]?).map okey = ((s.objs ++ [new])[i]?).map okey) :
+    PInv s1 ∧ ∀ k i, (k, i) ∈ s.all → path s1 i = some k := by
+  have hkeys : ∀ k i, (k, i) ∈ s.all → path s1 i = some k := by
+    intro k i hki
+    have h0 := hI.keys k i hki
+    simp only [path] at h0 ⊢
+    rw [hlen, pathAux_congr hagree]
+    exact pathAux_mono (pathAux_append new h0)
+  refine ⟨⟨hall ▸ hI.uniq, fun k i h => hkeys k i (hall ▸ h), ?_⟩, hkeys⟩
+  intro i o q hi ho hq
+  obtain ⟨k, hk⟩ := hi
+  rw [hall] at hk
+  have hlt := (hI.hasPath hk).lt
+  have ha := hagree i
+  rw [ho, List.getElem?_append_left hlt] at ha
+  cases hso : s.objs[i]? with
+  | none => rw [hso] at ha; simp at ha
+  | some os =>
+    rw [hso] at ha
+    simp only [Option.map_some, Option.some.injEq, okey, Prod.mk.injEq] at ha
+    obtain ⟨k', hk'⟩ := hI.up i os q ⟨k, hk⟩ hso (ha.2 ▸ hq)
+    exact ⟨k', hall ▸ hk'⟩
+
+theorem get_append_modify {objs : List Obj} {new : Obj} {p : Nat} {g : Obj → Obj} (i : Nat)
+    (hp : p < objs.length) :
+    ((objs ++ [new]).modify p g)[i]? =
+      if i = objs.length then some new else (objs[i]?).map (fun o => if i = p then g o else o) := by
+  by_cases hi : i = p
+  · subst hi
+    rw [getElem?_modify_eq, List.getElem?_append_left hp]
+    have : i ≠ objs.length := Nat.ne_of_lt hp
+    simp only [this, if_false, if_true]
+  · rw [getElem?_modify_ne _ hi]
+    by_cases hn : i = objs.length
+    · subst hn; simp
+    · simp only [hn, hi, if_false]
+      by_cases hlt : i < objs.length
+      · rw [List.getElem?_append_left hlt]; cases objs[i]? <;> rfl
+      · have h1 : objs[i]? = none := List.getElem?_eq_none_iff.2 (by omega)
+        have h2 : (objs ++ [new])[i]? = none := List.getElem?_eq_none_iff.2 (by simp; omega)
+        rw [h1, h2]; rfl
+
+theorem Reg.lt {s : State} (hI : PInv s) {i} (h : Reg s i) : i < s.objs.length := by
+  obtain ⟨k, hk⟩ := h
+  exact (hI.hasPath hk).lt
+
+theorem HasPath.root_inv {objs : List Obj} {i k o} (h : HasPath objs i k) (ho : objs[i]? = some o)
+    (hp : o.parent = none) : k = [o.name] :=
+  h.func (.root ho hp)
+
+theorem HasPath.child_inv {objs : List Obj} {i k o q} (h : HasPath objs i k) (ho : objs[i]? = some o)
+    (hp : o.parent = some q) : ∃ pq, HasPath objs q pq ∧ k = pq ++ [o.name] := by
+  cases h with
+  | root ho' hp' => rw [ho] at ho'; injection ho' with e; subst e; rw [hp] at hp'; cases hp'
+  | @child _ _ _ pq ho' hp' hq' =>
+    rw [ho] at ho'; injection ho' with e; subst e
+    rw [hp] at hp'; injection hp' with e; subst e
+    exact ⟨pq, hq', rfl⟩
+
+/-- `addObject`, with the placement step abstracted: `s1` is `s` plus one new object `new`
+(index `n`), listed in `contents` of its parent or in `roots`. -/
+theorem addObject_core {s s1 s' : State} {new : Obj} {name : Name} {parent : Option Nat}
+    (hI : Inv s) (hall : s1.all = s.all) (hlen : s1.objs.length = s.objs.length + 1)
+    (hgetn : s1.objs[s.objs.length]? = some new)
+    (hnew : new.name = name ∧ new.parent = parent ∧ new.contents = [])
+    (hget : ∀ i, i < s.objs.length → ∃ o o1, s.objs[i]? = some o ∧ s1.objs[i]? = some o1 ∧
+      o1.name = o.name ∧ o1.parent = o.parent ∧
+      o1.contents = if parent = some i then dset o.contents name s.objs.length else o.contents)
+    (hroots : (parent = none → s1.roots = s.roots ++ [s.objs.length]) ∧
+      (∀ p, parent = some p → s1.roots = s.roots ∧ p < s.objs.length))
+    (h : register s1 s.objs.length = .ok s') : Inv s' := by
+  obtain ⟨hnm, hnp, hnc⟩ := hnew
+  -- lookups in s1
+  have hcases : ∀ i o1, s1.objs[i]? = some o1 → (i = s.objs.length ∧ o1 = new) ∨
+      (i < s.objs.length ∧ ∃ o, s.objs[i]? = some o ∧ o1.name = o.name ∧ o1.parent = o.parent ∧
+        o1.contents = if parent = some i then dset o.contents name s.objs.length else o.contents) := by
+    intro i o1 ho1
+    have hlt := (List.getElem?_eq_some_iff.1 ho1).1
+    by_cases hi : i = s.objs.length
+    · subst hi; rw [hgetn] at ho1; injection ho1 with e; exact Or.inl ⟨rfl, e.symm⟩
+    · have hlt' : i < s.objs.length := by omega
+      obtain ⟨o, o1', a1, a2, a3, a4, a5⟩ := hget i hlt'
+      rw [ho1] at a2; injection a2 with e; subst e
+      exact Or.inr ⟨hlt', o, a1, a3, a4, a5⟩
+  have hagree : ∀ i : Nat, (s1.objs[i]?).map okey = ((s.objs ++ [new])[i]?).map okey := by
+    intro i
+    by_cases hlt : i < s.objs.length
+    · obtain ⟨o, o1, a1, a2, a3, a4, _⟩ := hget i hlt
+      rw [List.getElem?_append_left hlt, a1, a2]; simp [okey, a3, a4]
+    · by_cases hi : i = s.objs.length
+      · subst hi; rw [hgetn, List.getElem?_append_right (Nat.le_refl _)]; simp
+      · have h1 : s1.objs[i]? = none := List.getElem?_eq_none_iff.2 (by omega)
+        have h2 : (s.objs ++ [new])[i]? = none := List.getElem?_eq_none_iff.2 (by simp; omega)
+        rw [h1, h2]
+  obtain ⟨hP1, hkeys1⟩ := PInv_extend hI.reg hall hlen hagree
+  have hreg1 : ∀ i, Reg s1 i ↔ Reg s i := by intro i; simp only [Reg, hall]
+  have hnr : ¬Reg s1 s.objs.length := fun hr => Nat.lt_irrefl _ (Reg.lt hI.reg ((hreg1 _).1 hr))
+  have hpar : ∀ o q, s1.objs[s.objs.length]? = some o → o.parent = some q → Reg s1 q := by
+    intro o q ho hq
+    rw [hgetn] at ho; injection ho with e; subst e
+    exact (hreg1 q).2 (hI.full q (hroots.2 q (hnp ▸ hq)).2)
+  obtain ⟨hP', hreg', hroots', fn, hfn, hcase⟩ := register_spec hP1 hnr hpar h
+  have hfnP : HasPath s1.objs s.objs.length fn := path_sound hfn
+  -- the tree part in s1
+  have cuniq1 : ∀ (i : Nat) (o1 : Obj), s1.objs[i]? = some o1 → Uniq o1.contents := by
+    intro i o1 ho1
+    rcases hcases i o1 ho1 with ⟨_, rfl⟩ | ⟨_, o, a1, _, _, a4⟩
+    · rw [hnc]; exact uniq_nil
+    · rw [a4]; split
+      · exact dset_uniq (hI.tree.cuniq i o a1)
+      · exact hI.tree.cuniq i o a1
+  have coh1 : ∀ (i : Nat) (o1 : Obj) (k : Name) (c : Nat), s1.objs[i]? = some o1 → (k, c) ∈ o1.contents →
+      ∃ co : Obj, s1.objs[c]? = some co ∧ co.parent = some i ∧ co.name = k := by
+    intro i o1 k c ho1 hkc
+    rcases hcases i o1 ho1 with ⟨_, rfl⟩ | ⟨_, o, a1, _, _, a4⟩
+    · rw [hnc] at hkc; simp at hkc
+    · have hold : (k, c) ∈ o.contents → ∃ co : Obj, s1.objs[c]? = some co ∧ co.parent = some i ∧ co.name = k := by
+        intro hm
+        obtain ⟨co, b1, b2, b3⟩ := hI.tree.coh i o k c a1 hm
+        obtain ⟨o', o1', c1, c2, c3, c4, _⟩ := hget c (List.getElem?_eq_some_iff.1 b1).1
+        rw [b1] at c1; injection c1 with e; subst e
+        exact ⟨o1', c2, c4.trans b2, c3.trans b3⟩
+      rw [a4] at hkc
+      split at hkc
+      · rename_i hpi
+        rcases (mem_dset_iff (hI.tree.cuniq i o a1)).1 hkc with ⟨rfl, rfl⟩ | ⟨_, hm⟩
+        · exact ⟨new, hgetn, hnp.trans hpi, hnm⟩
+        · exact hold hm
+      · exact hold hkc
+  have listed1 : ∀ (i : Nat) (o1 : Obj), s1.objs[i]? = some o1 → (∀ v, (fn, v) ∈ s1.all → v ≠ i) →
+      Listed s1.objs s1.roots i o1 := by
+    intro i o1 ho1 hnofn
+    rcases hcases i o1 ho1 with ⟨rfl, rfl⟩ | ⟨hlt, o, a1, a2, a3, _⟩
+    · refine ⟨fun hn => ?_, fun p hp => ?_⟩
+      · rw [hroots.1 (hnp ▸ hn)]; simp
+      · have hpp : parent = some p := hnp ▸ hp
+        obtain ⟨po, po1, b1, b2, _, _, b5⟩ := hget p (hroots.2 p hpp).2
+        refine ⟨po1, b2, Or.inl ?_⟩
+        rw [b5, if_pos hpp, hnm]; exact dset_get_same _ _ _
+    · obtain ⟨l1, l2⟩ := hI.tree.listed i o a1
+      refine ⟨fun hn => ?_, fun q hq => ?_⟩
+      · have := l1 (a3 ▸ hn)
+        cases hpc : parent with
+        | none => rw [hroots.1 hpc]; exact List.mem_append_left _ this
+        | some p => rw [(hroots.2 p hpc).1]; exact this
+      · obtain ⟨po, b1, b2⟩ := l2 q (a3 ▸ hq)
+        obtain ⟨po', po1, c1, c2, _, _, c5⟩ := hget q (List.getElem?_eq_some_iff.1 b1).1
+        rw [b1] at c1; injection c1 with e; subst e
+        refine ⟨po1, c2, ?_⟩
+        rcases b2 with b2 | b2
+        · left
+          rw [c5, a2]
+          split
+          · rename_i hpq
+            by_cases hname : o.name = name
+            · exfalso
+              obtain ⟨pp, hpp, hfneq⟩ := hfnP.child_inv hgetn (hnp.trans hpq)
+              have hiP : HasPath s1.objs i (pp ++ [o1.name]) := .child ho1 hq hpp
+              rw [a2, hname, ← hnm, ← hfneq] at hiP
+              obtain ⟨ki, hki⟩ := hI.full i hlt
+              have := (path_sound (hkeys1 ki i hki)).func hiP
+              subst this
+              exact hnofn i (hall ▸ hki) rfl
+            · rw [dset_get_other _ _ _ _ hname]; exact b2
+          · exact b2
+        · right; rw [a2]; exact b2
+  -- assemble
+  have hlen' : s'.objs.length = s.objs.length + 1 := by
+    rcases hcase with ⟨_, e⟩ | ⟨_, _, _, _, e⟩
+    · rw [e, hlen]
+    · rw [e, List.length_modify, hlen]
+  refine ⟨hP', ?_, ?_⟩
+  · intro i hi
+    rw [hlen'] at hi
+    by_cases hin : i = s.objs.length
+    · exact (hreg' i).2 (Or.inr hin)
+    · exact (hreg' i).2 (Or.inl ((hreg1 i).2 (hI.full i (by omega))))
+  · rcases hcase with ⟨hdg, e⟩ | ⟨prev, nm', hprev, hsup, e⟩
+    · rw [e, hroots']
+      have hno := dget_none_iff.1 hdg
+      exact ⟨cuniq1, coh1, fun i o1 ho1 => listed1 i o1 ho1 (fun v hv => absurd hv (hno v))⟩
+    · rw [e, hroots']
+      have hprevR : Reg s prev := ⟨fn, hall ▸ hprev⟩
+      have hprevlt : prev < s.objs.length := Reg.lt hI.reg hprevR
+      refine CInv_rename hsup cuniq1 coh1 ?_ ?_ ?_
+      · -- nobody lists prev
+        intro q qo k hqo hent
+        obtain ⟨co, b1, b2, b3⟩ := coh1 q qo k prev hqo hent
+        have hprevP : HasPath s1.objs prev fn := hP1.hasPath hprev
+        obtain ⟨pq, hpq, e1⟩ := hprevP.child_inv b1 b2
+        cases hpc : parent with
+        | none =>
+          have := hfnP.root_inv hgetn (hnp.trans hpc)
+          rw [this] at e1
+          have h1 := congrArg List.length e1
+          simp only [List.length_append, List.length_cons, List.length_nil] at h1
+          have h2 := hpq.length_pos
+          omega
+        | some p =>
+          obtain ⟨pp, hpp, e2⟩ := hfnP.child_inv hgetn (hnp.trans hpc)
+          rw [e2] at e1
+          obtain ⟨e3, e4⟩ := List.append_inj' e1 rfl
+          simp only [List.cons.injEq, and_true] at e4
+          subst e3
+          have hplt := (hroots.2 p hpc).2
+          obtain ⟨kp, hkp⟩ := hI.full p hplt
+          have hqR : Reg s1 q := hP1.up prev co q ⟨fn, hprev⟩ b1 b2
+          have hkpP := hP1.hasPath (hall ▸ hkp : (kp, p) ∈ s1.all)
+          have := hkpP.func hpp
+          subst this
+          have hqp : q = p := hP1.inj (hall ▸ hkp : (kp, p) ∈ s1.all) hqR hpq
+          subst hqp
+          rcases hcases q qo hqo with ⟨a, _⟩ | ⟨_, o, a1, _, _, a4⟩
+          · omega
+          · rw [a4, if_pos hpc] at hent
+            rcases (mem_dset_iff (hI.tree.cuniq q o a1)).1 hent with ⟨_, a⟩ | ⟨a, _⟩
+            · exact hnr (a ▸ ⟨fn, hprev⟩)
+            · exact a (b3.symm.trans (e4.symm ▸ hnm) |>.symm ▸ rfl)
+      · intro i o1 hi ho1
+        exact listed1 i o1 ho1 (fun v hv => (uniq_val hP1.uniq hv hprev).symm ▸ hi.symm)
+      · intro po1 hpo1
+        rcases hcases prev po1 hpo1 with ⟨a, _⟩ | ⟨_, o, a1, _, a3, _⟩
+        · omega
+        · obtain ⟨l1, l2⟩ := hI.tree.listed prev o a1
+          refine ⟨fun hn => ?_, fun q hq => ?_⟩
+          · have := l1 (a3 ▸ hn)
+            cases hpc : parent with
+            | none => rw [hroots.1 hpc]; exact List.mem_append_left _ this
+            | some p => rw [(hroots.2 p hpc).1]; exact this
+          · obtain ⟨ppo, b1, _⟩ := l2 q (a3 ▸ hq)
+            obtain ⟨_, ppo1, _, c2, _⟩ := hget q (List.getElem?_eq_some_iff.1 b1).1
+            exact ⟨ppo1, c2⟩
+
+/-- `System.addObject` preserves the invariant. -/
+theorem addObject_inv {s s' : State} {c : Cls} {name : Name} {parent : Option Nat}
+    (hI : Inv s) (h : addObject s c name parent = .ok s') : Inv s' := by
+  unfold addObject at h
+  cases hpl : place s c name parent with
+  | error e => simp only [hpl] at h; cases h
+  | ok s1 =>
+  simp only [hpl] at h
+  unfold place at hpl
+  cases parent with
+  | none =>
+    simp only at hpl
+    split at hpl
+    · simp only [Except.ok.injEq] at hpl
+      refine addObject_core (s1 := s1) (new := ⟨name, none, c, [], []⟩) (name := name) (parent := none) hI
+        (by rw [← hpl]) (by rw [← hpl]; simp) (by rw [← hpl]; simp) ⟨rfl, rfl, rfl⟩ ?_
+        ⟨fun _ => (by rw [← hpl]), fun p hp => (by cases hp)⟩ h
+      intro i hi
+      have : s.objs[i]? = some s.objs[i] := by simp [hi]
+      refine ⟨s.objs[i], s.objs[i], this, ?_, rfl, rfl, by simp⟩
+      rw [← hpl]; simp only [List.getElem?_append_left hi]; exact this
+    · cases hpl
+  | some p =>
+    simp only at hpl
+    split at hpl
+    · rename_i hp
+      simp only [Except.ok.injEq] at hpl
+      refine addObject_core (s1 := s1) (new := ⟨name, some p, c, [], []⟩) (name := name) (parent := some p) hI
+        (by rw [← hpl]; rfl) (by rw [← hpl]; simp [modifyObj]) ?_ ⟨rfl, rfl, rfl⟩ ?_
+        ⟨fun hn => (by cases hn), fun q hq => ?_⟩ h
+      · rw [← hpl]; simp only [modifyObj]
+        rw [get_append_modify _ hp]; simp
+      · intro i hi
+        have hsi : s.objs[i]? = some s.objs[i] := by simp [hi]
+        rw [← hpl]; simp only [modifyObj]
+        rw [get_append_modify _ hp, hsi]
+        have hne : i ≠ s.objs.length := Nat.ne_of_lt hi
+        simp only [hne, if_false, Option.map_some]
+        by_cases hip : i = p
+        · subst hip; refine ⟨_, _, rfl, rfl, ?_, ?_, ?_⟩ <;> simp
+        · refine ⟨_, _, rfl, rfl, ?_, ?_, ?_⟩ <;> simp [hip, Ne.symm hip]
+      · injection hq with hq; subst hq; rw [← hpl]; exact ⟨rfl, hp⟩
+    · cases hpl
+
+/-! ## Layer 5: `reparent` -/
+
+theorem Below.parent {objs : List Obj} {top i o q} (hb : Below objs top i) (hi : i ≠ top)
+    (ho : objs[i]? = some o) (hq : o.parent = some q) : Below objs top q := by
+  cases hb with
+  | refl => exact absurd rfl hi
+  | step ho' hp' hb' =>
+    rw [ho] at ho'; injection ho' with e; subst e
+    rw [hq] at hp'; injection hp' with e; subst e
+    exact hb'
+
+theorem mem_of_ddel {κ ν : Type} [DecidableEq κ] {d d' : List (κ × ν)} {k : κ} (h : ddel d k = some d') :
+    ∃ v, (k, v) ∈ d := by
+  cases hd : dget d k with
+  | none => rw [(ddel_none_iff d k).2 hd] at h; cases h
+  | some v => exact ⟨v, mem_of_dget hd⟩
+
+/-- `delAll` over `objectsBelow top` removes exactly the subtree of `top` -/
+theorem delAll_below {s s1 : State} {top : Nat} (hI : PInv s) (h : delAll s (objectsBelow s top) = .ok s1) :
+    s1.objs = s.objs ∧ s1.roots = s.roots ∧ Uniq s1.all ∧
+    ∀ k v, (k, v) ∈ s1.all ↔ ((k, v) ∈ s.all ∧ ¬Below s.objs top v) := by
+  obtain ⟨h1, h2, h3, h4⟩ := delAll_spec _ _ _ hI.uniq h
+  refine ⟨h1, h2, h3, fun k v => ?_⟩
+  rw [h4]
+  constructor
+  · rintro ⟨a, b⟩
+    exact ⟨a, fun hb => b v ((mem_objectsBelow hI).2 ⟨⟨k, a⟩, hb⟩) (hI.keys k v a)⟩
+  · rintro ⟨a, b⟩
+    refine ⟨a, fun x hx hxk => ?_⟩
+    obtain ⟨⟨kx, hkx⟩, hxb⟩ := (mem_objectsBelow hI).1 hx
+    have := hI.keys kx x hkx
+    rw [hxk] at this; injection this with this; subst this
+    exact b (uniq_val hI.uniq hkx a ▸ hxb)
+
+/-- the last loop of `reparent`: re-register the moved subtree -/
+theorem reparent_finish {s s5 s' : State} {obj : Nat} {B : Path} {ran : Prop}
+    (hI : Inv s) (hP5 : PInv s5)
+    (hreg5 : ∀ i, Reg s5 i ↔ ((Reg s i ∧ ¬Below s.objs obj i) ∨ (i = obj ∧ ran)))
+    (hparA : ∀ i : Nat, i ≠ obj → (s5.objs[i]?).map (·.parent) = (s.objs[i]?).map (·.parent))
+    (hkeyA : ∀ i : Nat, Below s.objs obj i → i ≠ obj → (s5.objs[i]?).map okey = (s.objs[i]?).map okey)
+    (hobj : path s5 obj = some B)
+    (hran : ran → (B, obj) ∈ s5.all) (hnran : ¬ran → ∀ v, (B, v) ∉ s5.all)
+    (hobjpar : ∀ o q, s5.objs[obj]? = some o → o.parent = some q → Reg s5 q)
+    (hobjlt : obj < s.objs.length)
+    (h : addAll s5 (objectsBelow s obj) = .ok s') :
+    PInv s' ∧ (∀ i, i < s.objs.length → Reg s' i) ∧ s'.objs = s5.objs ∧ s'.roots = s5.roots := by
+  have hbelow : ∀ x, x ∈ objectsBelow s obj ↔ (Reg s x ∧ Below s.objs obj x) := fun x => mem_objectsBelow hI.reg
+  obtain ⟨A, hA⟩ := hI.full obj hobjlt
+  have hAP := hI.reg.hasPath hA
+  have hBP : HasPath s5.objs obj B := path_sound hobj
+  have hre : ∀ x kx, (kx, x) ∈ s.all → Below s.objs obj x →
+      ∃ rest, kx = A ++ rest ∧ HasPath s5.objs x (B ++ rest) :=
+    fun x kx hx hb => reroot hkeyA hAP hBP hb (hI.reg.hasPath hx)
+  have hinj5 : ∀ x ∈ objectsBelow s obj, ∀ y ∈ objectsBelow s obj, ∀ k,
+      path s5 x = some k → path s5 y = some k → x = y := by
+    intro x hx y hy k hxk hyk
+    obtain ⟨⟨kx, hkx⟩, hxb⟩ := (hbelow x).1 hx
+    obtain ⟨⟨ky, hky⟩, hyb⟩ := (hbelow y).1 hy
+    obtain ⟨rx, hrx, hx2⟩ := hre x kx hkx hxb
+    obtain ⟨ry, hry, hy2⟩ := hre y ky hky hyb
+    have e1 := (path_sound hxk).func hx2
+    have e2 := (path_sound hyk).func hy2
+    have : rx = ry := List.append_cancel_left (e1.symm.trans e2)
+    subst this
+    rw [← hry] at hrx
+    subst hrx
+    exact uniq_val hI.reg.uniq hkx hky
+  obtain ⟨h6o, h6r, h6u, h6d, h6m⟩ := addAll_spec _ _ _ hP5.uniq hinj5 h
+  have hpath' : ∀ x, path s' x = path s5 x := fun x => path_congr_objs h6o x
+  -- a registered name that is also the new name of a moved object belongs to that object
+  have hcoll : ∀ k y x, (k, y) ∈ s5.all → x ∈ objectsBelow s obj → path s5 x = some k → y = x := by
+    intro k y x hy hx hxk
+    obtain ⟨⟨kx, hkx⟩, hxb⟩ := (hbelow x).1 hx
+    obtain ⟨rest, hkxe, hx5⟩ := hre x kx hkx hxb
+    have hk : k = B ++ rest := (path_sound hxk).func hx5
+    have hyP := hP5.hasPath hy
+    obtain ⟨z, hzB, hzb⟩ := hyP.walk B rest hk hBP.ne_nil
+    obtain ⟨kz, hkz⟩ := hP5.reg_up hzb ⟨k, hy⟩
+    have := (hP5.hasPath hkz).func hzB
+    subst this
+    by_cases hr : ran
+    · have hz : z = obj := uniq_val hP5.uniq hkz (hran hr)
+      subst hz
+      have hyb : Below s.objs z y := hzb.transfer (fun i hi => (hparA i hi).symm)
+      have hyo : y = z := by
+        rcases (hreg5 y).1 ⟨k, hy⟩ with ⟨_, a⟩ | ⟨a, _⟩
+        · exact absurd hyb a
+        · exact a
+      subst hyo
+      have hkB : k = kz := hyP.func hBP
+      rw [hkB] at hk
+      have hrest : rest = [] := by
+        have := congrArg List.length hk
+        simp only [List.length_append] at this
+        exact List.eq_nil_of_length_eq_zero (by omega)
+      subst hrest
+      simp only [List.append_nil] at hkxe
+      subst hkxe
+      exact uniq_val hI.reg.uniq hA hkx
+    · exact absurd hkz (hnran hr z)
+  have hregS : ∀ i, Reg s' i ↔ (Reg s5 i ∨ i ∈ objectsBelow s obj) := by
+    intro i
+    constructor
+    · rintro ⟨k, hk⟩
+      rcases (h6m k i).1 hk with ⟨a, _⟩ | ⟨a, _⟩
+      · exact Or.inl ⟨k, a⟩
+      · exact Or.inr a
+    · rintro (⟨k, hk⟩ | hb)
+      · by_cases hex : ∃ x, x ∈ objectsBelow s obj ∧ path s5 x = some k
+        · obtain ⟨x, hx, hxk⟩ := hex
+          have := hcoll k i x hk hx hxk
+          subst this
+          exact ⟨k, (h6m k i).2 (Or.inr ⟨hx, hxk⟩)⟩
+        · exact ⟨k, (h6m k i).2 (Or.inl ⟨hk, fun x hx hxk => hex ⟨x, hx, hxk⟩⟩)⟩
+      · obtain ⟨k, hk⟩ := h6d i hb
+        exact ⟨k, (h6m k i).2 (Or.inr ⟨hb, hk⟩)⟩
+  refine ⟨⟨h6u, ?_, ?_⟩, ?_, h6o, h6r⟩
+  · intro k v hkv
+    rw [hpath']
+    rcases (h6m k v).1 hkv with ⟨a, _⟩ | ⟨_, a⟩
+    · exact hP5.keys k v a
+    · exact a
+  · intro i o q hi ho hq
+    rw [h6o] at ho
+    rcases (hregS i).1 hi with r5 | hb
+    · exact (hregS q).2 (Or.inl (hP5.up i o q r5 ho hq))
+    · by_cases hio : i = obj
+      · subst hio; exact (hregS q).2 (Or.inl (hobjpar o q ho hq))
+      · obtain ⟨hiR, hib⟩ := (hbelow i).1 hb
+        have hpa := hparA i hio
+        rw [ho] at hpa
+        cases hso : s.objs[i]? with
+        | none => rw [hso] at hpa; simp at hpa
+        | some os =>
+          rw [hso] at hpa
+          simp only [Option.map_some, Option.some.injEq] at hpa
+          have hq' : os.parent = some q := hpa ▸ hq
+          exact (hregS q).2 (Or.inr ((hbelow q).2 ⟨hI.reg.up i os q hiR hso hq', hib.parent hio hso hq'⟩))
+  · intro i hi
+    have hiR := hI.full i hi
+    by_cases hb : Below s.objs obj i
+    · exact (hregS i).2 (Or.inr ((hbelow i).2 ⟨hiR, hb⟩))
+    · exact (hregS i).2 (Or.inl ((hreg5 i).2 (Or.inl ⟨hiR, hb⟩)))
+
+/-- the three in-place edits of `reparent`, field by field -/
+theorem modify3_get (l : List Obj) (obj op np : Nat) (newName : Name) (oc : List (Name × Nat))
+    (al : Obj → List (Name × Path)) (i : Nat) :
+    ∃ F : Obj → Obj,
+      (((l.modify obj (fun x => { x with parent := some np, name := newName })).modify op
+          (fun x => { x with contents := oc, aliases := al x })).modify np
+          (fun x => { x with contents := dset x.contents newName obj }))[i]? = (l[i]?).map F ∧
+      ∀ os, (F os).name = (if i = obj then newName else os.name) ∧
+        (F os).parent = (if i = obj then some np else os.parent) ∧
+        (F os).contents = (if i = np then dset (if i = op then oc else os.contents) newName obj
+                            else (if i = op then oc else os.contents)) := by
+  refine ⟨fun a =>
+    (fun a : Obj => if np = i then { a with contents := dset a.contents newName obj } else a)
+      ((fun a : Obj => if op = i then { a with contents := oc, aliases := al a } else a)
+        ((fun a : Obj => if obj = i then { a with parent := some np, name := newName } else a) a)), ?_, ?_⟩
+  · simp only [List.getElem?_modify]
+    cases l[i]? <;> rfl
+  · intro os
+    by_cases h1 : obj = i <;> by_cases h2 : op = i <;> by_cases h3 : np = i <;>
+      simp [h1, h2, h3, eq_comm]
+
+/-- `Documentable.reparent` preserves the invariant. -/
+theorem reparent_inv {s s' : State} {obj newParent : Nat} {newName : Name} (hI : Inv s)
+    (h : reparent s obj newParent newName = .ok s') : Inv s' := by
+  unfold reparent at h
+  cases hgo : getObj s obj with
+  | none => simp only [hgo] at h; cases h
+  | some o =>
+  cases hgn : getObj s newParent with
+  | none => simp only [hgo, hgn] at h; cases h
+  | some npo =>
+  simp only [hgo, hgn] at h
+  have ho : s.objs[obj]? = some o := hgo
+  have hnpo : s.objs[newParent]? = some npo := hgn
+  have hobjlt : obj < s.objs.length := (List.getElem?_eq_some_iff.1 ho).1
+  have hnplt : newParent < s.objs.length := (List.getElem?_eq_some_iff.1 hnpo).1
+  cases hdel : delAll s (objectsBelow s obj) with
+  | error e => simp only [hdel] at h; cases h
+  | ok s1 =>
+  simp only [hdel] at h
+  obtain ⟨h1o, h1r, h1u, h1m⟩ := delAll_below hI.reg hdel
+  cases hop : o.parent with
+  | none => simp only [hop] at h; cases h
+  | some op =>
+  simp only [hop] at h
+  cases hgop : getObj s1 op with
+  | none => simp only [hgop] at h; cases h
+  | some opo =>
+  simp only [hgop] at h
+  have hopo : s.objs[op]? = some opo := by rw [← h1o]; exact hgop
+  cases hcc : canContainImports opo.cls with
+  | false => simp only [hcc, Bool.not_false, if_true] at h; cases h
+  | true =>
+  simp only [hcc, Bool.not_true, Bool.false_eq_true, if_false] at h
+  cases hdd : ddel opo.contents o.name with
+  | none => simp only [hdd] at h; cases h
+  | some oc =>
+  simp only [hdd] at h
+  generalize hs2 : modifyObj s1 obj (fun x => { x with parent := some newParent, name := newName }) = s2 at h
+  cases hnp : path s2 obj with
+  | none => simp only [hnp] at h; cases h
+  | some newPath =>
+  simp only [hnp] at h
+  generalize hs4 : modifyObj (modifyObj s2 op (fun x => { x with contents := oc, aliases := dset x.aliases o.name newPath }))
+    newParent (fun x => { x with contents := dset x.contents newName obj }) = s4 at h
+  -- the shape of s4
+  have h2o : s2.objs = s.objs.modify obj (fun x => { x with parent := some newParent, name := newName }) := by
+    rw [← hs2, modifyObj, h1o]
+  have h4o : s4.objs = ((s.objs.modify obj (fun x => { x with parent := some newParent, name := newName })).modify op
+      (fun x => { x with contents := oc, aliases := dset x.aliases o.name newPath })).modify newParent
+      (fun x => { x with contents := dset x.contents newName obj }) := by
+    rw [← hs4, ← h2o]; rfl
+  have h4a : s4.all = s1.all := by rw [← hs4, ← hs2]; rfl
+  have h4r : s4.roots = s.roots := by rw [← hs4, ← hs2]; exact h1r
+  have h4len : s4.objs.length = s.objs.length := by rw [h4o]; simp only [List.length_modify]
+  have hF : ∀ i : Nat, ∃ F : Obj → Obj, s4.objs[i]? = (s.objs[i]?).map F ∧
+      ∀ os, (F os).name = (if i = obj then newName else os.name) ∧
+        (F os).parent = (if i = obj then some newParent else os.parent) ∧
+        (F os).contents = (if i = newParent then dset (if i = op then oc else os.contents) newName obj
+                            else (if i = op then oc else os.contents)) := by
+    intro i; rw [h4o]; exact modify3_get _ _ _ _ _ _ _ i
+  have hget4 : ∀ (i : Nat) (o4 : Obj), s4.objs[i]? = some o4 → ∃ os, s.objs[i]? = some os ∧
+      o4.name = (if i = obj then newName else os.name) ∧
+      o4.parent = (if i = obj then some newParent else os.parent) ∧
+      o4.contents = (if i = newParent then dset (if i = op then oc else os.contents) newName obj
+                            else (if i = op then oc else os.contents)) := by
+    intro i o4 h4
+    obtain ⟨F, hF1, hF2⟩ := hF i
+    rw [hF1] at h4
+    cases hs : s.objs[i]? with
+    | none => rw [hs] at h4; cases h4
+    | some os =>
+      rw [hs] at h4; simp only [Option.map_some, Option.some.injEq] at h4; subst h4
+      exact ⟨os, rfl, hF2 os⟩
+  have hget4' : ∀ (i : Nat) (os : Obj), s.objs[i]? = some os → ∃ o4, s4.objs[i]? = some o4 ∧
+      o4.name = (if i = obj then newName else os.name) ∧
+      o4.parent = (if i = obj then some newParent else os.parent) ∧
+      o4.contents = (if i = newParent then dset (if i = op then oc else os.contents) newName obj
+                            else (if i = op then oc else os.contents)) := by
+    intro i os hs
+    obtain ⟨F, hF1, hF2⟩ := hF i
+    exact ⟨F os, by rw [hF1, hs]; rfl, hF2 os⟩
+  have hokey4 : ∀ i : Nat, i ≠ obj → (s4.objs[i]?).map okey = (s.objs[i]?).map okey := by
+    intro i hi
+    obtain ⟨F, hF1, hF2⟩ := hF i
+    rw [hF1]
+    cases s.objs[i]? with
+    | none => rfl
+    | some os => simp [okey, hF2 os, hi]
+  have hpar4 : ∀ i : Nat, i ≠ obj → (s4.objs[i]?).map (·.parent) = (s.objs[i]?).map (·.parent) := by
+    intro i hi
+    obtain ⟨F, hF1, hF2⟩ := hF i
+    rw [hF1]
+    cases s.objs[i]? with
+    | none => rfl
+    | some os => simp [hF2 os, hi]
+  -- the new name of obj
+  have hnewP4 : path s4 obj = some newPath := by
+    have hag : ∀ i : Nat, (s4.objs[i]?).map okey = (s2.objs[i]?).map okey := by
+      intro i
+      have e4 : s4.objs = ((s2.objs.modify op (fun x => { x with contents := oc, aliases := dset x.aliases o.name newPath })).modify
+          newParent (fun x => { x with contents := dset x.contents newName obj })) := by rw [← hs4]; rfl
+      rw [e4]
+      refine (modify_agree_okey _ newParent _ ?_ i).trans (modify_agree_okey _ op _ ?_ i) <;> intro _ <;> rfl
+    have hl : s4.objs.length = s2.objs.length := by rw [h4len, h2o, List.length_modify]
+    simp only [path] at hnp ⊢
+    rw [hl, pathAux_congr hag]; exact hnp
+  obtain ⟨o4obj, ho4obj, ho4n, ho4p, _⟩ := hget4' obj o ho
+  simp only [if_true] at ho4n ho4p
+  have hnewPP : HasPath s4.objs obj newPath := path_sound hnewP4
+  -- the registry of s4
+  have hreg4 : ∀ i, Reg s4 i ↔ (Reg s i ∧ ¬Below s.objs obj i) := by
+    intro i
+    simp only [Reg, h4a, h1m]
+    constructor
+    · rintro ⟨k, a, b⟩; exact ⟨⟨k, a⟩, b⟩
+    · rintro ⟨⟨k, a⟩, b⟩; exact ⟨k, a, b⟩
+  have hkeys4 : ∀ k v, (k, v) ∈ s4.all → path s4 v = some k := by
+    intro k v hkv
+    rw [h4a, h1m] at hkv
+    have := hI.reg.keys k v hkv.1
+    simp only [path, h4len] at this ⊢
+    rw [pathAux_congr_off (Below s.objs obj) (fun i hi => hokey4 i (fun e => hi (e ▸ .refl)))
+      (Below.up_closed _ _) _ v hkv.2]
+    exact this
+  have hnpnb : ¬Below s.objs obj newParent := by
+    intro hb
+    have hb4 : Below s4.objs obj newParent := hb.transfer (fun i hi => hpar4 i hi)
+    exact not_below_parent hnewPP ho4obj ho4p hb4
+  have hP4 : PInv s4 := by
+    refine ⟨h4a ▸ h1u, hkeys4, ?_⟩
+    intro i o4 q hi ho4 hq
+    obtain ⟨hiR, hib⟩ := (hreg4 i).1 hi
+    have hio : i ≠ obj := fun e => hib (e ▸ .refl)
+    obtain ⟨os, hos, _, hpar, _⟩ := hget4 i o4 ho4
+    rw [if_neg hio] at hpar
+    have hq' : os.parent = some q := hpar ▸ hq
+    exact (hreg4 q).2 ⟨hI.reg.up i os q hiR hos hq', Below.up_closed _ _ i os q hib hos hq'⟩
+  have hnr4 : ¬Reg s4 obj := fun hr => ((hreg4 obj).1 hr).2 .refl
+  have hnpR4 : Reg s4 newParent := (hreg4 _).2 ⟨hI.full _ hnplt, hnpnb⟩
+  have hobjpar4 : ∀ o' q, s4.objs[obj]? = some o' → o'.parent = some q → Reg s4 q := by
+    intro o' q ho' hq
+    rw [ho4obj] at ho'; injection ho' with e; subst e
+    rw [ho4p] at hq; injection hq with e; subst e
+    exact hnpR4
+  obtain ⟨A, hA⟩ := hI.full obj hobjlt
+  obtain ⟨pp, hpp, hnewPeq⟩ := hnewPP.child_inv ho4obj ho4p
+  rw [ho4n] at hnewPeq
+  -- contents of the old parent
+  have hcu := hI.tree.cuniq
+  obtain ⟨hocu, hocm⟩ := ddel_spec (hcu op opo hopo) hdd
+  have hent : (o.name, obj) ∈ opo.contents := by
+    obtain ⟨c, hc⟩ := mem_of_ddel hdd
+    obtain ⟨co, hco, hcop, hcon⟩ := hI.tree.coh op opo o.name c hopo hc
+    obtain ⟨pop, hpop, hAeq⟩ := (hI.reg.hasPath hA).child_inv ho hop
+    have hcP : HasPath s.objs c A := by rw [hAeq, ← hcon]; exact .child hco hcop hpop
+    have : c = obj := hI.reg.inj hA (hI.full c (List.getElem?_eq_some_iff.1 hco).1) hcP
+    exact this ▸ hc
+  have hc1 : ∀ (i : Nat) (os : Obj), s.objs[i]? = some os →
+      Uniq (if i = op then oc else os.contents) ∧
+      ∀ k c, (k, c) ∈ (if i = op then oc else os.contents) → ((k, c) ∈ os.contents ∧ (i = op → k ≠ o.name)) := by
+    intro i os hos
+    by_cases hi : i = op
+    · subst hi
+      rw [hopo] at hos; injection hos with e; subst e
+      simp only [if_true]
+      exact ⟨hocu, fun k c hm => ⟨((hocm k c).1 hm).2, fun _ => ((hocm k c).1 hm).1⟩⟩
+    · simp only [if_neg hi]
+      exact ⟨hcu i os hos, fun k c hm => ⟨hm, fun e => absurd e hi⟩⟩
+  -- the tree part in s4
+  have cuniq4 : ∀ (i : Nat) (o4 : Obj), s4.objs[i]? = some o4 → Uniq o4.contents := by
+    intro i o4 ho4
+    obtain ⟨os, hos, _, _, hc⟩ := hget4 i o4 ho4
+    rw [hc]
+    split
+    · exact dset_uniq (hc1 i os hos).1
+    · exact (hc1 i os hos).1
+  have coh4 : ∀ (i : Nat) (o4 : Obj) (k : Name) (c : Nat), s4.objs[i]? = some o4 → (k, c) ∈ o4.contents →
+      ∃ co : Obj, s4.objs[c]? = some co ∧ co.parent = some i ∧ co.name = k := by
+    intro i o4 k c ho4 hkc
+    obtain ⟨os, hos, _, _, hc⟩ := hget4 i o4 ho4
+    have hold : (k, c) ∈ (if i = op then oc else os.contents) →
+        ∃ co : Obj, s4.objs[c]? = some co ∧ co.parent = some i ∧ co.name = k := by
+      intro hm
+      obtain ⟨hm1, hm2⟩ := (hc1 i os hos).2 k c hm
+      obtain ⟨co, hco, hcop, hcon⟩ := hI.tree.coh i os k c hos hm1
+      have hcobj : c ≠ obj := by
+        intro e; subst e
+        rw [ho] at hco; injection hco with e; subst e
+        rw [hop] at hcop; injection hcop with e
+        exact hm2 e.symm hcon.symm
+      obtain ⟨co4, hco4, hn4, hp4, _⟩ := hget4' c co hco
+      rw [if_neg hcobj] at hn4 hp4
+      exact ⟨co4, hco4, hp4.trans hcop, hn4.trans hcon⟩
+    rw [hc] at hkc
+    split at hkc
+    · rename_i hinp
+      rcases (mem_dset_iff (hc1 i os hos).1).1 hkc with ⟨rfl, rfl⟩ | ⟨_, hm⟩
+      · exact ⟨o4obj, ho4obj, hinp ▸ ho4p, ho4n⟩
+      · exact hold hm
+    · exact hold hkc
+  have listed4 : ∀ (i : Nat) (o4 : Obj), s4.objs[i]? = some o4 → (∀ v, (newPath, v) ∈ s4.all → v ≠ i) →
+      Listed s4.objs s4.roots i o4 := by
+    intro i o4 ho4 hnofn
+    obtain ⟨os, hos, hn, hp, _⟩ := hget4 i o4 ho4
+    by_cases hio : i = obj
+    · subst hio
+      rw [if_pos rfl] at hn hp
+      refine ⟨fun e => (by rw [hp] at e; cases e), fun p hpp => ?_⟩
+      rw [hp] at hpp; injection hpp with e; subst e
+      obtain ⟨np4, hnp4, _, _, hnc4⟩ := hget4' newParent npo hnpo
+      rw [if_pos rfl] at hnc4
+      exact ⟨np4, hnp4, Or.inl (by rw [hnc4, hn]; exact dset_get_same _ _ _)⟩
+    · rw [if_neg hio] at hn hp
+      obtain ⟨l1, l2⟩ := hI.tree.listed i os hos
+      refine ⟨fun e => (by rw [h4r]; exact l1 (hp ▸ e)), fun q hq => ?_⟩
+      have hq' : os.parent = some q := hp ▸ hq
+      obtain ⟨pos, hpos, hd⟩ := l2 q hq'
+      obtain ⟨po4, hpo4, _, _, hpc4⟩ := hget4' q pos hpos
+      refine ⟨po4, hpo4, ?_⟩
+      rcases hd with hd | hd
+      · left
+        rw [hn, hpc4]
+        -- step 1: the entry survives the deletion in the old parent
+        have hstep1 : dget (if q = op then oc else pos.contents) os.name = some i := by
+          by_cases hqop : q = op
+          · subst hqop
+            rw [hopo] at hpos; injection hpos with e; subst e
+            simp only [if_true]
+            have hne : os.name ≠ o.name := by
+              intro e
+              rw [e, dget_of_mem (hcu q opo hopo) hent] at hd
+              injection hd with hd; exact hio hd.symm
+            rw [ddel_get_other _ _ _ _ hdd hne]; exact hd
+          · simp only [if_neg hqop]; exact hd
+        split
+        · rename_i hqnp
+          by_cases hname : os.name = newName
+          · exfalso
+            subst hqnp
+            have hiP : HasPath s4.objs i (pp ++ [o4.name]) := .child ho4 hq hpp
+            rw [hn, hname, ← hnewPeq] at hiP
+            have hib : ¬Below s.objs obj i := fun hb => hnpnb (hb.parent hio hos hq')
+            obtain ⟨ki, hki⟩ := (hreg4 i).2 ⟨hI.full i (List.getElem?_eq_some_iff.1 hos).1, hib⟩
+            have := (hP4.hasPath hki).func hiP
+            subst this
+            exact hnofn i hki rfl
+          · rw [dset_get_other _ _ _ _ hname]; exact hstep1
+        · exact hstep1
+      · right; rw [hn]; exact hd
+  -- the two branches
+  have hfinish : ∀ (s5 : State) (ran : Prop), PInv s5 →
+      (∀ i, Reg s5 i ↔ (Reg s4 i ∨ (i = obj ∧ ran))) →
+      (∀ i : Nat, (s5.objs[i]?).map (·.parent) = (s4.objs[i]?).map (·.parent)) →
+      (∀ i : Nat, ¬Reg s4 i → i ≠ obj → s5.objs[i]? = s4.objs[i]?) →
+      path s5 obj = some newPath →
+      (ran → (newPath, obj) ∈ s5.all) → (¬ran → ∀ v, (newPath, v) ∉ s5.all) →
+      (∀ o q, s5.objs[obj]? = some o → o.parent = some q → Reg s5 q) →
+      addAll s5 (objectsBelow s obj) = .ok s' →
+      PInv s' ∧ (∀ i, i < s.objs.length → Reg s' i) ∧ s'.objs = s5.objs ∧ s'.roots = s5.roots := by
+    intro s5 ran hP5 hreg5 hpar5 hsame5 hobj5 hran hnran hobjpar5 hadd
+    refine reparent_finish (ran := ran) hI hP5 ?_ ?_ ?_ hobj5 hran hnran hobjpar5 hobjlt hadd
+    · intro i
+      rw [hreg5, hreg4]
+    · intro i hi
+      rw [hpar5, hpar4 i hi]
+    · intro i hib hi
+      have : ¬Reg s4 i := fun hr => ((hreg4 i).1 hr).2 hib
+      rw [hsame5 i this hi, hokey4 i hi]
+  by_cases hdup : dhas s4.all newPath = true
+  · simp only [hdup, if_true] at h
+    cases hhd : handleDuplicate s4 obj newPath with
+    | error e => simp only [hhd] at h; cases h
+    | ok s5 =>
+    simp only [hhd] at h
+    obtain ⟨prev, nm', hprev, hsup, h5o, h5r, hP5, hreg5, hobj5⟩ :=
+      handleDuplicate_spec hP4 hnr4 hnewP4 hobjpar4 hhd
+    have hprevR4 : Reg s4 prev := ⟨newPath, hprev⟩
+    have hprevobj : prev ≠ obj := fun e => hnr4 (e ▸ hprevR4)
+    obtain ⟨hP', hfull', h'o, h'r⟩ := hfinish s5 True hP5
+      (fun i => by rw [hreg5]; simp)
+      (fun i => by rw [h5o]; exact modify_agree_parent s4.objs prev (fun p => { p with name := nm' }) (fun _ => rfl) i)
+      (fun i hi _ => by rw [h5o, getElem?_modify_ne _ (fun e : i = prev => hi (by rw [e]; exact hprevR4))])
+      (hP5.keys _ _ hobj5) (fun _ => hobj5) (fun hn => absurd trivial hn)
+      (fun o' q ho' hq => hP5.up obj o' q ⟨newPath, hobj5⟩ ho' hq) h
+    refine ⟨hP', ?_, ?_⟩
+    · intro i hi
+      rw [h'o, h5o, List.length_modify, h4len] at hi
+      exact hfull' i hi
+    · rw [h'o, h'r, h5o, h5r]
+      refine CInv_rename hsup cuniq4 coh4 ?_ ?_ ?_
+      · intro q qo4 k hqo4 hent'
+        obtain ⟨co4, b1, b2, b3⟩ := coh4 q qo4 k prev hqo4 hent'
+        obtain ⟨pq, hpq, e1⟩ := (hP4.hasPath hprev).child_inv b1 b2
+        rw [hnewPeq] at e1
+        obtain ⟨e3, e4⟩ := List.append_inj' e1 rfl
+        simp only [List.cons.injEq, and_true] at e4
+        subst e3
+        have hqR : Reg s4 q := hP4.up prev co4 q hprevR4 b1 b2
+        obtain ⟨knp, hknp⟩ := hnpR4
+        have := (hP4.hasPath hknp).func hpp
+        subst this
+        have hqnp : q = newParent := hP4.inj hknp hqR hpq
+        subst hqnp
+        obtain ⟨os, hos, _, _, hc⟩ := hget4 q qo4 hqo4
+        rw [hc, if_pos rfl] at hent'
+        rcases (mem_dset_iff (hc1 q os hos).1).1 hent' with ⟨_, a⟩ | ⟨a, _⟩
+        · exact hprevobj a
+        · exact a (b3.symm.trans e4.symm)
+      · intro i o4 hi ho4
+        exact listed4 i o4 ho4 (fun v hv => (uniq_val hP4.uniq hv hprev).symm ▸ hi.symm)
+      · intro po4 hpo4
+        obtain ⟨os, hos, _, hp, _⟩ := hget4 prev po4 hpo4
+        rw [if_neg hprevobj] at hp
+        obtain ⟨l1, l2⟩ := hI.tree.listed prev os hos
+        refine ⟨fun e => (by rw [h4r]; exact l1 (hp ▸ e)), fun q hq => ?_⟩
+        obtain ⟨pos, hpos, _⟩ := l2 q (hp ▸ hq)
+        obtain ⟨po4', hpo4', _⟩ := hget4' q pos hpos
+        exact ⟨po4', hpo4'⟩
+  · simp only [hdup] at h
+    have hno : ∀ v, (newPath, v) ∉ s4.all := by
+      have : dget s4.all newPath = none := by
+        simp only [dhas] at hdup
+        cases hd : dget s4.all newPath with
+        | none => rfl
+        | some v => rw [hd] at hdup; simp at hdup
+      exact dget_none_iff.1 this
+    obtain ⟨hP', hfull', h'o, h'r⟩ := hfinish s4 False hP4
+      (fun i => by simp) (fun i => rfl) (fun i _ _ => rfl) hnewP4 (fun hf => hf.elim) (fun _ => hno)
+      hobjpar4 h
+    refine ⟨hP', ?_, ?_⟩
+    · intro i hi
+      rw [h'o, h4len] at hi
+      exact hfull' i hi
+    · rw [h'o, h'r]
+      exact ⟨cuniq4, coh4, fun i o4 ho4 => listed4 i o4 ho4 (fun v hv => absurd hv (hno v))⟩
+
+/-! ## Layer 6: the property theorems of C02 -/
+
+/-- the empty system satisfies the invariant -/
+theorem inv_holds_init : Inv init := by
+  refine ⟨⟨uniq_nil, ?_, ?_⟩, ?_, ⟨?_, ?_, ?_⟩⟩
+  · intro k i h; simp [init] at h
+  · intro i o q _ ho; simp [init] at ho
+  · intro i hi; simp [init] at hi
+  · intro p po h; simp [init] at h
+  · intro p po k c h; simp [init] at h
+  · intro i o h; simp [init] at h
+
+/-- **C02, one step.**  Every operation of the registry API that does not raise — creating and
+registering an object (a duplicate definition included), or moving an object by `reparent`
+(onto an existing name included) — preserves the invariant. -/
+theorem inv_step (s s' : State) (op : Op) (h : Inv s) (hs : step s op = .ok s') : Inv s' := by
+  cases op with
+  | add c n p => exact addObject_inv h hs
+  | reparent o np nn => exact reparent_inv h hs
+
+theorem inv_run_from : ∀ (ops : List Op) (s : State), Inv s → Inv (run s ops).1
+  | [], s, h => h
+  | op :: ops, s, h => by
+    unfold run
+    cases hs : step s op with
+    | ok s' => exact inv_run_from ops s' (inv_step s s' op h hs)
+    | error e => exact inv_run_from ops s h
+
+/-- **C02, all histories.**  After any interleaving of definitions, duplicate definitions and
+re-export moves, the invariant holds. -/
+theorem inv_run (ops : List Op) : Inv (run init ops).1 := inv_run_from ops init inv_holds_init
+
+/-! ### `Inv` implies the executable invariant `invB` that the driver reports -/
+
+theorem getObj_of_lt {s : State} {i : Nat} (hi : i < s.objs.length) : getObj s i = some s.objs[i] := by
+  simp [Registry.getObj, hi]
+
+theorem Inv.invB {s : State} (h : Inv s) : invB s = true := by
+  have hsnd : (s.all.map Prod.snd).Nodup :=
+    nodup_map_of_dep Prod.fst Prod.snd s.all h.reg.uniq (fun a ha b hb hab => by
+      have h1 := h.reg.keys a.1 a.2 ha
+      have h2 := h.reg.keys b.1 b.2 hb
+      rw [hab, h2] at h1
+      injection h1 with h1; exact h1.symm)
+  simp only [Registry.invB, Bool.and_eq_true]
+  refine ⟨⟨⟨⟨?_, ?_⟩, ?_⟩, ?_⟩, ?_⟩
+  · simp only [allKeysUnique, List.all_eq_true, beq_iff_eq]
+    intro e he
+    exact filter_length_one Prod.fst s.all h.reg.uniq e he
+  · simp only [keysAreNames, List.all_eq_true, beq_iff_eq]
+    intro e he
+    exact h.reg.keys e.1 e.2 he
+  · simp only [allRegistered, List.all_eq_true, beq_iff_eq, List.mem_range]
+    intro i hi
+    obtain ⟨k, hk⟩ := h.full i hi
+    exact filter_length_one Prod.snd s.all hsnd (k, i) hk
+  · simp only [contentsCoherent, List.all_eq_true, List.mem_range]
+    intro p hp
+    rw [getObj_of_lt hp]
+    simp only [List.all_eq_true]
+    intro e he
+    obtain ⟨co, hco, h1, h2⟩ := h.tree.coh p s.objs[p] e.1 e.2 (by simp [hp]) he
+    have : Registry.getObj s e.2 = some co := hco
+    rw [this]
+    simp [h1, h2]
+  · simp only [childrenListed, List.all_eq_true, List.mem_range]
+    intro i hi
+    rw [getObj_of_lt hi]
+    obtain ⟨l1, l2⟩ := h.tree.listed i s.objs[i] (by simp [hi])
+    cases hp : (s.objs[i]).parent with
+    | none => simp only [hp]; simpa using l1 hp
+    | some p =>
+      obtain ⟨po, hpo, hd⟩ := l2 p hp
+      have : Registry.getObj s p = some po := hpo
+      simp only [hp, this]
+      rcases hd with hd | hd
+      · simp [hd]
+      · simp [hd]
+
+/-- what the driver prints as `inv true` is a theorem for every history -/
+theorem invB_run (ops : List Op) : invB (run init ops).1 = true := (inv_run ops).invB
+
+/-! ### the clauses of C02, spelled out -/
+
+/-- every registered object sits under exactly its current qualified name -/
+theorem registered_under_current_name (ops : List Op) :
+    ∀ k i, (k, i) ∈ (run init ops).1.all → path (run init ops).1 i = some k :=
+  (inv_run ops).reg.keys
+
+/-- no qualified name is registered twice -/
+theorem registered_names_unique (ops : List Op) : ((run init ops).1.all.map Prod.fst).Nodup :=
+  (inv_run ops).reg.uniq
+
+/-- every object that was created is registered exactly once -/
+theorem registered_exactly_once (ops : List Op) :
+    ∀ i, i < (run init ops).1.objs.length →
+      ((run init ops).1.all.filter (fun e => e.2 = i)).length = 1 := by
+  intro i hi
+  have h := (inv_run ops).invB
+  simp only [Registry.invB, Bool.and_eq_true, allRegistered, List.all_eq_true, beq_iff_eq, List.mem_range] at h
+  exact h.1.1.2 i hi
+
+/-- every `contents` entry points to a child that carries that name and has that parent -/
+theorem contents_coherent (ops : List Op) :
+    ∀ (p : Nat) (po : Obj) (k : Name) (c : Nat), (run init ops).1.objs[p]? = some po → (k, c) ∈ po.contents →
+      ∃ co : Obj, (run init ops).1.objs[c]? = some co ∧ co.parent = some p ∧ co.name = k :=
+  (inv_run ops).tree.coh
+
+/-- a child is its parent's `contents` entry under its own name, unless it was superseded by a
+later definition (and renamed `name i`); a parentless object is a root object -/
+theorem child_listed_or_superseded (ops : List Op) :
+    ∀ (i : Nat) (o : Obj), (run init ops).1.objs[i]? = some o →
+      (o.parent = none → i ∈ (run init ops).1.roots) ∧
+      (∀ p, o.parent = some p → ∃ po : Obj, (run init ops).1.objs[p]? = some po ∧
+        (dget po.contents o.name = some i ∨ isSupersededName o.name = true)) :=
+  (inv_run ops).tree.listed
+
+/-- the parent chain of every object ends in a root: its qualified name is defined -/
+theorem every_object_named (ops : List Op) :
+    ∀ i, i < (run init ops).1.objs.length → ∃ k, path (run init ops).1 i = some k := by
+  intro i hi
+  obtain ⟨k, hk⟩ := (inv_run ops).full i hi
+  exact ⟨k, (inv_run ops).reg.keys k i hk⟩
+
+/-- non-vacuity: a history with a duplicate method, a duplicate class and a re-export move onto a
+name that is already taken; no operation raises, and the theorems above apply to it -/
+def witness : List Op :=
+  [.add .module ['m'] none, .add .cls ['C'] (some 0), .add .function ['f'] (some 1),
+   .add .function ['f'] (some 1), .add .module ['n'] none, .add .cls ['C'] (some 4),
+   .reparent 1 4 ['C']]
+
+example : (run init witness).2.all (·.isNone) = true ∧
+    (run init witness).1.all.map Prod.snd = [0, 4, 5, 1, 2, 3] ∧
+    dget (run init witness).1.all [['n'], ['C', ' ', '0']] = some 5 ∧
+    dget (run init witness).1.all [['n'], ['C'], ['f', ' ', '0']] = some 2 := by decide
+
+example : Inv (run init witness).1 := inv_run witness
+
+/-- the hypothesis of `inv_step` is met by a non-trivial state and a non-trivial step -/
+example : ∃ s, Inv s ∧
+    (match step s (.reparent 1 4 ['C']) with
+     | .ok s' => decide (s'.all ≠ s.all)
+     | .error _ => false) = true :=
+  ⟨(run init witness.dropLast).1, inv_run _, by decide⟩
+
 
 end Registry
